@@ -1,1111 +1,1452 @@
-(* SharedFmla_proofs — proofs about the shared-formula model (property C15).
-   Uses Col26_proofs (agent c14) for the A1 text <-> coordinates lemmas. *)
+(* SharedFmla_proofs — proofs for property C15 (xlsx shared formulas).
+   Model / spec / known classes: SharedFmla.v.  A1 text lemmas: Col26_proofs.v (agent c14).
+   Everything is proved for an arbitrary oracle [is_alnum] (char::is_alphanumeric) that agrees
+   with the ASCII definition on ASCII. *)
 From Calamine Require Import Prelude Col26 Col26_proofs SharedFmla.
 Open Scope N_scope.
-Set Implicit Arguments.
 
-(* ------------------------------------------------------------------ outcome monad laws *)
-Lemma obind_assoc : forall A B C (o : outcome A) (f : A -> outcome B) (g : B -> outcome C),
-  (do y <- (do x <- o; f x); g y) = (do x <- o; do y <- f x; g y).
-Proof. intros A B C [a|e| |] f g; reflexivity. Qed.
-
-Lemma obind_ok_r : forall A (o : outcome A), (do x <- o; Ok x) = o.
-Proof. intros A [a|e| |]; reflexivity. Qed.
-
-Lemma obind_ext : forall A B (o : outcome A) (f g : A -> outcome B),
-  (forall a, f a = g a) -> (do x <- o; f x) = (do x <- o; g x).
-Proof. intros A B [a|e| |] f g H; cbn; auto. Qed.
-
-(* ------------------------------------------------------------------ characters *)
-Lemma alnum_ascii : forall c, is_alnum c = true -> c < 128.
+(* ------------------------------------------------------------------ lists *)
+Lemma span_eq : forall p l, fst (span p l) ++ snd (span p l) = l.
 Proof.
-  intros c. unfold is_alnum, is_alpha, is_upper, is_lower, is_digit,
-    ch_A, ch_Z, ch_a, ch_z, ch_0, ch_9. lia.
+  induction l as [|c t IH]; [reflexivity|]. cbn [span]. destruct (p c); cbn [fst snd app].
+  - f_equal. exact IH.
+  - reflexivity.
 Qed.
-Lemma alnum_not_dquote : forall c, is_alnum c = true -> (c =? ch_dquote) = false.
+
+Lemma span_fst_all : forall p l, forallb p (fst (span p l)) = true.
 Proof.
-  intros c. unfold is_alnum, is_alpha, is_upper, is_lower, is_digit,
-    ch_A, ch_Z, ch_a, ch_z, ch_0, ch_9, ch_dquote. lia.
+  induction l as [|c t IH]; [reflexivity|]. cbn [span]. destruct (p c) eqn:E; cbn [fst forallb].
+  - rewrite E, IH. reflexivity.
+  - reflexivity.
 Qed.
-Lemma upper_alpha : forall c, is_upper c = true -> is_alpha c = true.
+
+Definition head_fails (p : N -> bool) (r : list N) : Prop :=
+  match r with c :: _ => p c = false | [] => True end.
+
+Lemma span_snd_head : forall p l, head_fails p (snd (span p l)).
+Proof.
+  induction l as [|c t IH]; [exact I|]. cbn [span]. destruct (p c) eqn:E; cbn [snd].
+  - exact IH.
+  - exact E.
+Qed.
+
+Lemma span_app : forall p a r, forallb p a = true -> head_fails p r -> span p (a ++ r) = (a, r).
+Proof.
+  induction a as [|c a IH]; intros r Ha Hr.
+  - destruct r as [|x r]; [reflexivity|]. cbn in Hr. cbn [app span]. rewrite Hr. reflexivity.
+  - cbn [forallb] in Ha. apply andb_prop in Ha as [Hc Ha]. cbn [app span]. rewrite Hc.
+    rewrite (IH r Ha Hr). reflexivity.
+Qed.
+
+Lemma span_all : forall p l, forallb p l = true -> span p l = (l, []).
+Proof. intros p l H. rewrite <- (app_nil_r l) at 1. apply span_app; [exact H|exact I]. Qed.
+
+Lemma span_snd_nil_all : forall p l, snd (span p l) = [] -> forallb p l = true.
+Proof.
+  intros p l H. pose proof (span_eq p l) as E. rewrite H, app_nil_r in E.
+  rewrite <- E. apply span_fst_all.
+Qed.
+
+Lemma span_snd_len : forall p l, (length (snd (span p l)) <= length l)%nat.
+Proof.
+  intros p l. rewrite <- (span_eq p l) at 2. rewrite app_length. lia.
+Qed.
+
+Lemma forallb_app_l : forall (p : N -> bool) a b, forallb p (a ++ b) = forallb p a && forallb p b.
+Proof. intros. apply forallb_app. Qed.
+
+Lemma Forall_forallb : forall (p : N -> bool) l, Forall (fun x => p x = true) l -> forallb p l = true.
+Proof. intros p l H. apply forallb_forall. rewrite Forall_forall in H. exact H. Qed.
+
+Lemma forallb_impl : forall (p q : N -> bool) l,
+  (forall c, p c = true -> q c = true) -> forallb p l = true -> forallb q l = true.
+Proof.
+  intros p q l H Hl. rewrite forallb_forall in *. intros x Hx. apply H, Hl, Hx.
+Qed.
+
+Lemma obind_ok : forall A B (a : A) (f : A -> outcome B), (do x <- Ok a; f x) = f a.
+Proof. reflexivity. Qed.
+
+(* ------------------------------------------------------------------ ASCII character facts *)
+Definition ascii_wordch (c : N) : bool :=
+  ascii_alnum c || (c =? ch_uscore) || (c =? ch_dot) || (c =? ch_dollar) || (c =? ch_bslash) ||
+  (c =? ch_qmark).
+
+Lemma upper_lt128 : forall c, is_upper c = true -> c < 128.
+Proof. intros c H. unfold is_upper, ch_A, ch_Z in H. lia. Qed.
+Lemma digit_lt128 : forall c, is_digit c = true -> c < 128.
+Proof. intros c H. unfold is_digit, ch_0, ch_9 in H. lia. Qed.
+Lemma upper_is_alpha : forall c, is_upper c = true -> is_alpha c = true.
 Proof. intros c H. unfold is_alpha. rewrite H. reflexivity. Qed.
-Lemma alpha_alnum : forall c, is_alpha c = true -> is_alnum c = true.
-Proof. intros c H. unfold is_alnum. rewrite H. reflexivity. Qed.
-Lemma digit_alnum : forall c, is_digit c = true -> is_alnum c = true.
-Proof. intros c H. unfold is_alnum. rewrite H. apply orb_true_r. Qed.
 Lemma digit_not_alpha : forall c, is_digit c = true -> is_alpha c = false.
+Proof. intros c H. unfold is_alpha, is_digit, is_upper, is_lower, ch_0, ch_9, ch_A, ch_Z, ch_a, ch_z in *. lia. Qed.
+Lemma to_upper_upper : forall c, is_upper c = true -> to_upper c = c.
 Proof.
-  intros c. unfold is_alpha, is_upper, is_lower, is_digit, ch_A, ch_Z, ch_a, ch_z, ch_0, ch_9. lia.
+  intros c H. unfold to_upper. destruct (is_lower c) eqn:L; [|reflexivity].
+  unfold is_upper, is_lower, ch_A, ch_Z, ch_a, ch_z in *. lia.
 Qed.
-Lemma u8_ascii : forall c, c < 128 -> u8 c = c.
-Proof. intros c H. unfold u8. apply N.mod_small. lia. Qed.
-Lemma map_u8_ascii : forall l, Forall (fun c => c < 128) l -> map u8 l = l.
+Lemma to_upper_is_upper : forall c, is_alpha c = true -> is_upper (to_upper c) = true.
 Proof.
-  induction l as [|c l IH]; intros H; [reflexivity|].
-  inversion H as [|? ? Hc Hl]; subst. cbn [map]. rewrite u8_ascii by exact Hc. rewrite IH; auto.
+  intros c H. unfold to_upper, is_alpha in *. destruct (is_lower c) eqn:L.
+  - unfold is_lower, is_upper, ch_a, ch_z, ch_A, ch_Z in *. lia.
+  - rewrite orb_false_r in H. exact H.
 Qed.
 
-(* ------------------------------------------------------------------ the loop: append, result prefix *)
-Definition finish (off : Z * Z) (st : rstate) : outcome (list N) :=
-  match rs_cell st with
-  | [] => Ok (rs_res st)
-  | _ => do f <- flush_cell (rs_cell st) off; Ok (rs_res st ++ f)
+(* ------------------------------------------------------------------ offset_cell_name: the scanners *)
+Definition zf26 (acc : Z) (ch : N) : Z := (acc * 26 + (Z.of_N (to_upper ch) - 65 + 1))%Z.
+Definition zf10 (acc : Z) (ch : N) : Z := (acc * 10 + (Z.of_N ch - 48))%Z.
+
+Lemma ocn_letters_span : forall l k col, (k <= 3)%nat ->
+  ocn_letters l k col =
+  if (k + length (fst (span is_alpha l)) <=? 3)%nat
+  then Some ((k + length (fst (span is_alpha l)))%nat,
+             fold_left zf26 (fst (span is_alpha l)) col, snd (span is_alpha l))
+  else None.
+Proof.
+  induction l as [|c t IH]; intros k col Hk.
+  - cbn [ocn_letters span fst snd length fold_left]. rewrite Nat.add_0_r.
+    apply Nat.leb_le in Hk. rewrite Hk. reflexivity.
+  - cbn [ocn_letters span]. destruct (is_alpha c) eqn:A; cbn [fst snd length fold_left].
+    + destruct (3 <=? k)%nat eqn:E.
+      * apply Nat.leb_le in E.
+        destruct (k + S (length (fst (span is_alpha t))) <=? 3)%nat eqn:E2;
+          [apply Nat.leb_le in E2; lia|reflexivity].
+      * apply Nat.leb_gt in E. rewrite IH by lia.
+        replace (k + S (length (fst (span is_alpha t))))%nat
+          with (S k + length (fst (span is_alpha t)))%nat by lia.
+        reflexivity.
+    + rewrite Nat.add_0_r. apply Nat.leb_le in Hk. rewrite Hk. reflexivity.
+Qed.
+
+Lemma ocn_digits_span : forall l k row, (k <= 7)%nat ->
+  ocn_digits l k row =
+  if (k + length (fst (span is_digit l)) <=? 7)%nat
+  then Some ((k + length (fst (span is_digit l)))%nat,
+             fold_left zf10 (fst (span is_digit l)) row, snd (span is_digit l))
+  else None.
+Proof.
+  induction l as [|c t IH]; intros k row Hk.
+  - cbn [ocn_digits span fst snd length fold_left]. rewrite Nat.add_0_r.
+    apply Nat.leb_le in Hk. rewrite Hk. reflexivity.
+  - cbn [ocn_digits span]. destruct (is_digit c) eqn:A; cbn [fst snd length fold_left].
+    + destruct (7 <=? k)%nat eqn:E.
+      * apply Nat.leb_le in E.
+        destruct (k + S (length (fst (span is_digit t))) <=? 7)%nat eqn:E2;
+          [apply Nat.leb_le in E2; lia|reflexivity].
+      * apply Nat.leb_gt in E. rewrite IH by lia.
+        replace (k + S (length (fst (span is_digit t))))%nat
+          with (S k + length (fst (span is_digit t)))%nat by lia.
+        reflexivity.
+    + rewrite Nat.add_0_r. apply Nat.leb_le in Hk. rewrite Hk. reflexivity.
+Qed.
+
+(* the i64 accumulators are the N readings of Col26 *)
+Lemma zfold26 : forall a x, forallb is_alpha a = true ->
+  fold_left zf26 a (Z.of_N x)
+  = Z.of_N (fold_left (fun acc ch => acc * 26 + letter_val ch) (map to_upper a) x).
+Proof.
+  induction a as [|c a IH]; intros x H; [reflexivity|].
+  cbn [forallb] in H. apply andb_prop in H as [Hc Ha]. cbn [map fold_left].
+  rewrite <- IH by exact Ha. f_equal. unfold zf26, letter_val.
+  pose proof (to_upper_is_upper c Hc) as U. unfold is_upper, ch_A, ch_Z in U. unfold ch_A. lia.
+Qed.
+
+Lemma zfold10 : forall a x, forallb is_digit a = true ->
+  fold_left zf10 a (Z.of_N x) = Z.of_N (fold_left (fun acc ch => acc * 10 + (ch - ch_0)) a x).
+Proof.
+  induction a as [|c a IH]; intros x H; [reflexivity|].
+  cbn [forallb] in H. apply andb_prop in H as [Hc Ha]. cbn [fold_left].
+  rewrite <- IH by exact Ha. f_equal. unfold zf10.
+  unfold is_digit, ch_0, ch_9 in Hc. unfold ch_0. lia.
+Qed.
+
+Lemma zcol_of : forall a, forallb is_alpha a = true ->
+  fold_left zf26 a 0%Z = Z.of_N (col1_of_letters (map to_upper a)).
+Proof. intros a H. exact (zfold26 a 0 H). Qed.
+Lemma zrow_of : forall a, forallb is_digit a = true -> fold_left zf10 a 0%Z = Z.of_N (undec a).
+Proof. intros a H. exact (zfold10 a 0 H). Qed.
+
+Lemma starts_dollar_notin : forall l, ~ In ch_dollar l -> starts_dollar l = false.
+Proof.
+  intros [|c l] H; [reflexivity|]. cbn. apply N.eqb_neq. intros E. apply H. left. exact E.
+Qed.
+
+(* a name without '$' that is not a cell name is never translated *)
+Lemma ocn_parse_not_cell : forall n,
+  ~ In ch_dollar n -> is_cell_name n = false -> ocn_parse n = None.
+Proof.
+  intros n Hd Hc. unfold ocn_parse. rewrite (starts_dollar_notin n Hd). cbn iota.
+  rewrite ocn_letters_span by lia. cbn [Nat.add].
+  unfold is_cell_name in Hc. cbv zeta in Hc.
+  pose proof (span_eq is_alpha n) as En. pose proof (span_fst_all is_alpha n) as Ha.
+  revert Hc En Ha. destruct (span is_alpha n) as [a r]. cbn [fst snd]. intros Hc En Ha.
+  destruct (length a <=? 3)%nat eqn:L3; [|reflexivity].
+  destruct (length a =? 0)%nat eqn:L0; [reflexivity|].
+  assert (Hr : ~ In ch_dollar r).
+  { intros C. apply Hd. rewrite <- En. apply in_or_app. right. exact C. }
+  rewrite (starts_dollar_notin r Hr). cbn iota.
+  rewrite ocn_digits_span by lia. cbn [Nat.add].
+  pose proof (span_eq is_digit r) as Er. pose proof (span_fst_all is_digit r) as Hds.
+  revert Er Hds. destruct (span is_digit r) as [ds r3]. cbn [fst snd]. intros Er Hds.
+  destruct (length ds <=? 7)%nat eqn:L7; [|reflexivity].
+  destruct (length ds =? 0)%nat eqn:D0; [reflexivity|]. cbn [orb].
+  destruct r3 as [|x r3']; [|reflexivity]. cbn [is_nil negb orb].
+  rewrite app_nil_r in Er. subst ds.
+  destruct (hd 0 r =? ch_0) eqn:H0; [reflexivity|].
+  rewrite zcol_of by exact Ha. rewrite zrow_of by exact Hds.
+  assert (Na : nonempty a = true).
+  { destruct a; [discriminate L0|reflexivity]. }
+  assert (Nr : nonempty r = true).
+  { destruct r; [discriminate D0|reflexivity]. }
+  rewrite ?Na, ?L3, ?Nr, ?Hds, ?L7, ?H0 in Hc. cbn [andb negb] in Hc.
+  unfold ZROWS, ZCOLS. unfold MAX_COLUMNS, MAX_ROWS in Hc.
+  destruct ((1048576 <=? Z.of_N (undec r) - 1)%Z || (16384 <=? Z.of_N (col1_of_letters (map to_upper a)) - 1)%Z) eqn:E;
+    [reflexivity|].
+  exfalso. lia.
+Qed.
+
+(* words that start with a digit, or consist of [$]letters only, or of [$]digits only *)
+Lemma ocn_parse_digit_start : forall d l, is_digit d = true -> ocn_parse (d :: l) = None.
+Proof.
+  intros d l H. unfold ocn_parse.
+  assert (E : starts_dollar (d :: l) = false).
+  { cbn. apply N.eqb_neq. unfold is_digit, ch_0, ch_9 in H. unfold ch_dollar. lia. }
+  rewrite E. cbn iota. cbn [ocn_letters]. rewrite (digit_not_alpha d H). reflexivity.
+Qed.
+
+Lemma ocn_parse_dollar_digit : forall d l, is_digit d = true -> ocn_parse (ch_dollar :: d :: l) = None.
+Proof.
+  intros d l H. unfold ocn_parse. cbn [starts_dollar]. rewrite N.eqb_refl. cbn [tl ocn_letters].
+  rewrite (digit_not_alpha d H). reflexivity.
+Qed.
+
+Lemma letters_all_alpha : forall c, forallb is_alpha (letters c) = true.
+Proof.
+  intros c. apply Forall_forallb. eapply Forall_impl; [|apply letters_upper].
+  intros x Hx. apply upper_is_alpha. exact Hx.
+Qed.
+Lemma letters_map_upper : forall c, map to_upper (letters c) = letters c.
+Proof.
+  intros c. pose proof (letters_upper c) as F. induction F as [|x l Hx F IH]; [reflexivity|].
+  cbn [map]. rewrite to_upper_upper by exact Hx. rewrite IH. reflexivity.
+Qed.
+Lemma letters_head_not_dollar : forall c, starts_dollar (letters c) = false.
+Proof.
+  intros c. pose proof (letters_upper c) as F. destruct (letters c) as [|x l]; [reflexivity|].
+  inversion F; subst. cbn. apply N.eqb_neq. unfold is_upper, ch_A, ch_Z in *. unfold ch_dollar. lia.
+Qed.
+Lemma dec_all_digit : forall n, forallb is_digit (dec n) = true.
+Proof. intros n. apply Forall_forallb. apply dec_digits. Qed.
+Lemma dec_head : forall n, exists d l, dec n = d :: l /\ is_digit d = true.
+Proof.
+  intros n. pose proof (dec_digits n) as F. pose proof (dec_nonempty n) as Ne.
+  destruct (dec n) as [|d l]; [contradiction|]. inversion F; subst. eauto.
+Qed.
+Lemma letters_len3 : forall c, c < 16384 -> (length (letters c) <= 3)%nat.
+Proof.
+  intros c H. apply letters_length_le with (k := 2%nat). change (26 ^ N.of_nat 3) with 17576. lia.
+Qed.
+Lemma dec_len7 : forall n, n <= 1048576 -> (length (dec n) <= 7)%nat.
+Proof.
+  intros n H. apply dec_length_le with (k := 6%nat). change (10 ^ N.of_nat 7) with 10000000. lia.
+Qed.
+
+(* the decimal text of a positive number has no leading zero *)
+Lemma dec_head_nonzero : forall n, 0 < n -> hd 0 (dec n) <> ch_0.
+Proof.
+  intros n. pattern n. apply dec_ind; clear n.
+  - intros n Hn H0. rewrite dec_eq. apply N.ltb_lt in Hn. rewrite Hn. cbn [hd]. unfold ch_0. lia.
+  - intros n Hn IH H0. rewrite dec_eq. apply N.ltb_ge in Hn as Hn'. rewrite Hn'.
+    destruct (dec_head (n / 10)) as (d & l & E & _). rewrite E in *. cbn [app hd] in *.
+    apply IH. lia.
+Qed.
+
+Lemma ocn_parse_letters_only : forall a c, ocn_parse (dollar a ++ letters c) = None.
+Proof.
+  intros a c. unfold ocn_parse.
+  assert (E : (if starts_dollar (dollar a ++ letters c) then tl (dollar a ++ letters c)
+               else dollar a ++ letters c) = letters c).
+  { destruct a; cbn [dollar app].
+    - cbn [starts_dollar]. rewrite N.eqb_refl. reflexivity.
+    - rewrite letters_head_not_dollar. reflexivity. }
+  rewrite E. rewrite ocn_letters_span by lia. cbn [Nat.add].
+  rewrite (span_all is_alpha (letters c) (letters_all_alpha c)). cbn [fst snd].
+  destruct (length (letters c) <=? 3)%nat; [|reflexivity].
+  destruct (length (letters c) =? 0)%nat; [reflexivity|].
+  cbn [starts_dollar ocn_digits]. reflexivity.
+Qed.
+
+Lemma ocn_parse_digits_only : forall a n, ocn_parse (dollar a ++ dec n) = None.
+Proof.
+  intros a n. destruct (dec_head n) as (d & l & E & Hd). rewrite E.
+  destruct a; cbn [dollar app].
+  - apply ocn_parse_dollar_digit. exact Hd.
+  - apply ocn_parse_digit_start. exact Hd.
+Qed.
+
+(* a rendered reference parses to its position *)
+Lemma ocn_parse_ref : forall ca c ra r, c < 16384 -> r < 1048576 ->
+  ocn_parse (render_ref ca c ra r) = Some (ca, Z.of_N c, ra, Z.of_N r).
+Proof.
+  intros ca c ra r Hc Hr. unfold ocn_parse, render_ref, a1_ref.
+  set (rest := (if negb ra then [] else [ch_dollar]) ++ dec (r + 1)).
+  assert (E0 : starts_dollar ((if negb ca then [] else [ch_dollar]) ++ letters c ++ rest) = ca).
+  { destruct ca; cbn [negb app].
+    - cbn [starts_dollar]. apply N.eqb_refl.
+    - destruct (letters c) as [|x l] eqn:El; [exfalso; exact (letters_nonempty c El)|].
+      pose proof (letters_head_not_dollar c) as H. rewrite El in H. exact H. }
+  rewrite E0.
+  assert (E1 : (if ca then tl ((if negb ca then [] else [ch_dollar]) ++ letters c ++ rest)
+                else (if negb ca then [] else [ch_dollar]) ++ letters c ++ rest) = letters c ++ rest).
+  { destruct ca; reflexivity. }
+  rewrite E1. clear E0 E1.
+  destruct (dec_head (r + 1)) as (d & dl & Ed & Hd).
+  assert (Hrest : head_fails is_alpha rest).
+  { unfold rest. destruct ra; cbn [negb app]; [reflexivity|]. rewrite Ed. cbn.
+    apply digit_not_alpha. exact Hd. }
+  rewrite ocn_letters_span by lia. cbn [Nat.add].
+  rewrite (span_app is_alpha (letters c) rest (letters_all_alpha c) Hrest). cbn [fst snd].
+  pose proof (letters_len3 c Hc) as L3. apply Nat.leb_le in L3. rewrite L3.
+  destruct (length (letters c) =? 0)%nat eqn:L0.
+  { apply Nat.eqb_eq in L0. destruct (letters c) eqn:El; [exfalso; exact (letters_nonempty c El)|discriminate L0]. }
+  assert (E2 : starts_dollar rest = ra).
+  { unfold rest. destruct ra; cbn [negb app].
+    - cbn. apply N.eqb_refl.
+    - rewrite Ed. cbn. apply N.eqb_neq. unfold is_digit, ch_0, ch_9 in Hd. unfold ch_dollar. lia. }
+  rewrite E2.
+  assert (E3 : (if ra then tl rest else rest) = dec (r + 1)).
+  { unfold rest. destruct ra; reflexivity. }
+  rewrite E3. rewrite ocn_digits_span by lia. cbn [Nat.add].
+  rewrite (span_all is_digit (dec (r + 1)) (dec_all_digit (r + 1))). cbn [fst snd].
+  pose proof (@dec_len7 (r + 1) ltac:(lia)) as L7. apply Nat.leb_le in L7. rewrite L7.
+  destruct (length (dec (r + 1)) =? 0)%nat eqn:D0.
+  { apply Nat.eqb_eq in D0. rewrite Ed in D0. discriminate D0. }
+  cbn [is_nil negb orb].
+  destruct (hd 0 (dec (r + 1)) =? ch_0) eqn:H0.
+  { apply N.eqb_eq in H0. exfalso. apply (@dec_head_nonzero (r + 1)); [lia|exact H0]. }
+  rewrite zcol_of by apply letters_all_alpha. rewrite zrow_of by apply dec_all_digit.
+  rewrite letters_map_upper, col1_of_letters_letters, undec_dec.
+  unfold ZROWS, ZCOLS.
+  destruct ((1048576 <=? Z.of_N (r + 1) - 1)%Z || (16384 <=? Z.of_N (c + 1) - 1)%Z) eqn:E; [exfalso; lia|].
+  replace (Z.of_N (c + 1) - 1)%Z with (Z.of_N c) by lia.
+  replace (Z.of_N (r + 1) - 1)%Z with (Z.of_N r) by lia. reflexivity.
+Qed.
+
+Section Proofs.
+Variable is_alnum : N -> bool.
+Hypothesis is_alnum_ascii : forall c, c < 128 -> is_alnum c = ascii_alnum c.
+
+Local Notation wordch := (is_formula_word_char is_alnum).
+Local Notation rcn := (replace_cell_names is_alnum).
+
+Lemma wordch_ascii : forall c, c < 128 -> wordch c = ascii_wordch c.
+Proof.
+  intros c H. unfold is_formula_word_char, ascii_wordch. rewrite is_alnum_ascii by exact H.
+  reflexivity.
+Qed.
+
+Lemma word_char_eq : forall c, word_char is_alnum c = wordch c.
+Proof.
+  intros c. unfold word_char, dname_char, uname_char, is_formula_word_char.
+  destruct (is_alnum c), (c =? ch_uscore), (c =? ch_dot), (c =? ch_dollar), (c =? ch_bslash),
+    (c =? ch_qmark); reflexivity.
+Qed.
+
+Lemma wordch_upper : forall c, is_upper c = true -> wordch c = true.
+Proof.
+  intros c H. rewrite wordch_ascii by (apply upper_lt128; exact H).
+  unfold ascii_wordch, ascii_alnum, is_alpha. rewrite H. reflexivity.
+Qed.
+Lemma wordch_digit : forall c, is_digit c = true -> wordch c = true.
+Proof.
+  intros c H. rewrite wordch_ascii by (apply digit_lt128; exact H).
+  unfold ascii_wordch, ascii_alnum. rewrite H, orb_true_r. reflexivity.
+Qed.
+Lemma wordch_dollar : wordch ch_dollar = true.
+Proof. rewrite wordch_ascii by reflexivity. reflexivity. Qed.
+Lemma wordch_uname : forall c, uname_char is_alnum c = true -> wordch c = true.
+Proof.
+  intros c H. rewrite <- word_char_eq. unfold word_char, dname_char. rewrite H. reflexivity.
+Qed.
+Lemma wordch_dname : forall c, dname_char is_alnum c = true -> wordch c = true.
+Proof.
+  intros c H. rewrite <- word_char_eq. unfold word_char. rewrite H. reflexivity.
+Qed.
+(* a word character is none of the characters the scanner treats specially *)
+Lemma wordch_not_special : forall c, wordch c = true ->
+  (c =? ch_dquote) = false /\ (c =? ch_apos) = false /\ (c =? ch_lbrack) = false.
+Proof.
+  intros c H. repeat split.
+  - destruct (c =? ch_dquote) eqn:E; [|reflexivity]. apply N.eqb_eq in E. subst c.
+    rewrite wordch_ascii in H by reflexivity. discriminate H.
+  - destruct (c =? ch_apos) eqn:E; [|reflexivity]. apply N.eqb_eq in E. subst c.
+    rewrite wordch_ascii in H by reflexivity. discriminate H.
+  - destruct (c =? ch_lbrack) eqn:E; [|reflexivity]. apply N.eqb_eq in E. subst c.
+    rewrite wordch_ascii in H by reflexivity. discriminate H.
+Qed.
+Lemma dname_not_dollar : forall c, dname_char is_alnum c = true -> c <> ch_dollar.
+Proof.
+  intros c H E. subst c. unfold dname_char, uname_char in H.
+  rewrite is_alnum_ascii in H by reflexivity. discriminate H.
+Qed.
+
+(* ------------------------------------------------------------------ fuel *)
+Lemma scan_quote_len : forall q l, (length (snd (scan_quote q l)) <= length l)%nat.
+Proof.
+  induction l as [|x t IH]; [cbn; lia|]. cbn [scan_quote]. destruct (x =? q); cbn [snd length]; lia.
+Qed.
+
+Lemma scan_bracket_len : forall l d e r,
+  scan_bracket l d = Ok (e, r) -> (length r <= length l)%nat /\ (l <> [] -> length r < length l)%nat.
+Proof.
+  induction l as [|x t IH]; intros d e r H.
+  - cbn in H. inversion H. subst. split; [cbn; lia|]. intros C. contradiction.
+  - cbn [scan_bracket] in H.
+    destruct (if x =? ch_lbrack then Ok (d + 1)
+              else if x =? ch_rbrack then (if d =? 0 then Panic else Ok (d - 1)) else Ok d)
+      as [d'| | |] eqn:Ed; cbn [obind] in H; try discriminate H.
+    destruct (d' =? 0).
+    + inversion H. subst. cbn [length]. split; [lia|intros _; lia].
+    + destruct (scan_bracket t d') as [[e' r']| | |] eqn:Er; cbn [obind] in H; try discriminate H.
+      cbn [fst snd] in H. inversion H. subst. destruct (IH _ _ _ Er) as [L _].
+      cbn [length]. split; [lia|intros _; lia].
+Qed.
+
+Lemma rcn_step_len : forall off c t e r,
+  rcn_step is_alnum off c t = Ok (e, r) -> (length r <= length t)%nat.
+Proof.
+  intros off c t e r H. unfold rcn_step in H.
+  destruct ((c =? ch_dquote) || (c =? ch_apos)).
+  { inversion H. subst. apply scan_quote_len. }
+  destruct (c =? ch_lbrack).
+  { apply scan_bracket_len in H as [_ H]. specialize (H ltac:(discriminate)). cbn [length] in H. lia. }
+  destruct (wordch c) eqn:W.
+  - cbn [span] in H. rewrite W in H. cbn [fst snd] in H.
+    match type of H with (do _ <- ?X; _) = _ => destruct X as [tr| | |] end;
+      cbn [obind] in H; try discriminate H.
+    inversion H. subst. apply span_snd_len.
+  - inversion H. subst. lia.
+Qed.
+
+Lemma rcn_loop_fuel : forall off n f1 f2 l res,
+  (length l <= n)%nat -> (length l < f1)%nat -> (length l < f2)%nat ->
+  rcn_loop is_alnum f1 off l res = rcn_loop is_alnum f2 off l res.
+Proof.
+  induction n as [|n IH]; intros f1 f2 l res Hn H1 H2.
+  - destruct l; [|cbn in Hn; lia]. destruct f1, f2; try lia. reflexivity.
+  - destruct f1 as [|f1]; [lia|]. destruct f2 as [|f2]; [lia|].
+    destruct l as [|c t]; [reflexivity|]. cbn [rcn_loop].
+    destruct (rcn_step is_alnum off c t) as [[e r]| | |] eqn:E; cbn [obind]; try reflexivity.
+    apply rcn_step_len in E. cbn [length] in *. cbn [fst snd]. apply IH; lia.
+Qed.
+
+(* the loop with the fuel of the model: fuel-free unfolding equations *)
+Definition run (off : Z * Z) (l res : list N) : outcome (list N) :=
+  rcn_loop is_alnum (S (length l)) off l res.
+
+Lemma rcn_run : forall s off, rcn s off = run off s [].
+Proof. reflexivity. Qed.
+Lemma run_nil : forall off res, run off [] res = Ok res.
+Proof. reflexivity. Qed.
+Lemma run_cons : forall off c t res,
+  run off (c :: t) res = do er <- rcn_step is_alnum off c t; run off (snd er) (res ++ fst er).
+Proof.
+  intros off c t res. unfold run. cbn [length].
+  change (rcn_loop is_alnum (S (S (length t))) off (c :: t) res)
+    with (do er <- rcn_step is_alnum off c t;
+          rcn_loop is_alnum (S (length t)) off (snd er) (res ++ fst er)).
+  destruct (rcn_step is_alnum off c t) as [[e r]| | |] eqn:E; cbn [obind]; try reflexivity.
+  cbn [fst snd]. apply rcn_step_len in E.
+  apply rcn_loop_fuel with (n := length r); lia.
+Qed.
+
+(* ------------------------------------------------------------------ one step, by kind of first char *)
+Definition plain_char (c : N) : Prop :=
+  wordch c = false /\ c <> ch_dquote /\ c <> ch_apos /\ c <> ch_lbrack.
+
+Lemma run_other : forall off c s res, plain_char c -> run off (c :: s) res = run off s (res ++ [c]).
+Proof.
+  intros off c s res (W & H1 & H2 & H3). rewrite run_cons. unfold rcn_step.
+  apply N.eqb_neq in H1, H2, H3. rewrite H1, H2, H3, W. reflexivity.
+Qed.
+
+(* the separator condition for the text after a word *)
+Definition sep_start (s : list N) : Prop :=
+  match s with [] => True | c :: _ => wordch c = false /\ c <> ch_lparen /\ c <> ch_bang end.
+Definition next_call (s : list N) : bool :=
+  match s with x :: _ => (x =? ch_lparen) || (x =? ch_bang) | [] => false end.
+
+Lemma run_word : forall off w s res,
+  w <> [] -> forallb wordch w = true -> head_fails wordch s ->
+  run off (w ++ s) res =
+  do tr <- (if next_call s then Ok None else offset_cell_name w off);
+  run off s (res ++ match tr with Some nm => nm | None => w end).
+Proof.
+  intros off w s res Hne Hw Hs. destruct w as [|c w']; [contradiction|].
+  cbn [app]. rewrite run_cons. unfold rcn_step.
+  cbn [forallb] in Hw. apply andb_prop in Hw as [Hc Hw'].
+  destruct (wordch_not_special c Hc) as (E1 & E2 & E3). rewrite E1, E2, E3, Hc. cbn [orb].
+  change (c :: w' ++ s) with ((c :: w') ++ s).
+  rewrite span_app; [|cbn [forallb]; rewrite Hc, Hw'; reflexivity|exact Hs]. cbn [fst snd].
+  unfold next_call. destruct s as [|x s'].
+  - destruct (offset_cell_name (c :: w') off) as [tr| | |]; reflexivity.
+  - destruct ((x =? ch_lparen) || (x =? ch_bang)); [reflexivity|].
+    destruct (offset_cell_name (c :: w') off) as [tr| | |]; reflexivity.
+Qed.
+
+(* a word that is reproduced unchanged *)
+Lemma run_word_inert : forall off w s res,
+  w <> [] -> forallb wordch w = true -> head_fails wordch s ->
+  (next_call s = true \/ ocn_parse w = None) ->
+  run off (w ++ s) res = run off s (res ++ w).
+Proof.
+  intros off w s res Hne Hw Hs H. rewrite run_word by assumption.
+  destruct (next_call s); [reflexivity|]. destruct H as [H|H]; [discriminate H|].
+  unfold offset_cell_name. rewrite H. reflexivity.
+Qed.
+
+Lemma sep_start_head_fails : forall s, sep_start s -> head_fails wordch s.
+Proof. intros [|c s] H; [exact I|]. exact (proj1 H). Qed.
+Lemma sep_start_next_call : forall s, sep_start s -> next_call s = false.
+Proof.
+  intros [|c s] H; [reflexivity|]. destruct H as (_ & H1 & H2). cbn.
+  apply N.eqb_neq in H1, H2. rewrite H1, H2. reflexivity.
+Qed.
+
+(* quoted items: copied verbatim up to the closing quote *)
+Lemma scan_quote_app : forall q a s, ~ In q a -> scan_quote q (a ++ q :: s) = (a ++ [q], s).
+Proof.
+  induction a as [|x a IH]; intros s H.
+  - cbn. rewrite N.eqb_refl. reflexivity.
+  - cbn [app scan_quote]. destruct (x =? q) eqn:E.
+    + apply N.eqb_eq in E. subst. exfalso. apply H. left. reflexivity.
+    + rewrite IH by (intros C; apply H; right; exact C). reflexivity.
+Qed.
+
+Lemma run_quote : forall off q a s res,
+  q = ch_dquote \/ q = ch_apos -> ~ In q a ->
+  run off (q :: a ++ q :: s) res = run off s (res ++ q :: a ++ [q]).
+Proof.
+  intros off q a s res Hq Ha. rewrite run_cons. unfold rcn_step.
+  replace ((q =? ch_dquote) || (q =? ch_apos)) with true
+    by (destruct Hq; subst q; reflexivity).
+  rewrite scan_quote_app by exact Ha. reflexivity.
+Qed.
+
+(* with doubled quotes inside: a sequence of quoted blocks *)
+Lemma run_quoted_gen : forall off q, q = ch_dquote \/ q = ch_apos ->
+  forall body a s res, ~ In q a ->
+  run off (q :: a ++ double_ch q body ++ q :: s) res
+  = run off s (res ++ q :: a ++ double_ch q body ++ [q]).
+Proof.
+  intros off q Hq. induction body as [|c body IH]; intros a s res Ha.
+  - cbn [double_ch app]. apply run_quote; assumption.
+  - cbn [double_ch]. destruct (c =? q) eqn:E.
+    + apply N.eqb_eq in E. subst c.
+      change (q :: a ++ (q :: q :: double_ch q body) ++ q :: s)
+        with (q :: a ++ q :: (q :: [] ++ double_ch q body ++ q :: s)).
+      rewrite run_quote by assumption. rewrite IH by (intros C; exact C).
+      f_equal. cbn [app]. rewrite <- !app_assoc. cbn [app]. rewrite <- !app_assoc. reflexivity.
+    + change (q :: a ++ (c :: double_ch q body) ++ q :: s)
+        with (q :: a ++ [c] ++ double_ch q body ++ q :: s).
+      rewrite (app_assoc a [c]). rewrite IH.
+      * f_equal. rewrite <- !app_assoc. reflexivity.
+      * intros C. apply in_app_or in C as [C|[C|[]]]; [exact (Ha C)|].
+        subst c. rewrite N.eqb_refl in E. discriminate E.
+Qed.
+
+Lemma run_quoted : forall off q body s res, q = ch_dquote \/ q = ch_apos ->
+  run off ([q] ++ double_ch q body ++ q :: s) res = run off s (res ++ [q] ++ double_ch q body ++ [q]).
+Proof.
+  intros off q body s res Hq.
+  exact (run_quoted_gen off q Hq body [] s res (fun C => C)).
+Qed.
+
+(* bracketed items *)
+Lemma scan_bracket_span : forall s d rest,
+  brack_span s d = true -> scan_bracket (s ++ rest) d = Ok (s, rest).
+Proof.
+  induction s as [|x t IH]; intros d rest H; [discriminate H|].
+  cbn [brack_span] in H. cbn [app scan_bracket].
+  destruct (x =? ch_lbrack) eqn:E1.
+  - replace ((x =? ch_rbrack) && (d =? 0)) with false in H
+      by (apply N.eqb_eq in E1; subst x; reflexivity).
+    cbn [obind]. destruct (d + 1 =? 0) eqn:E0; [apply N.eqb_eq in E0; lia|].
+    rewrite (IH _ rest H). reflexivity.
+  - destruct (x =? ch_rbrack) eqn:E2.
+    + destruct (d =? 0) eqn:E3; [discriminate H|]. cbn [andb] in H. cbn [obind].
+      destruct (d - 1 =? 0) eqn:E0.
+      * destruct t; [reflexivity|discriminate H].
+      * rewrite (IH _ rest H). reflexivity.
+    + cbn [andb] in H. cbn [obind]. destruct (d =? 0) eqn:E0.
+      * destruct t; [reflexivity|discriminate H].
+      * rewrite (IH _ rest H). reflexivity.
+Qed.
+
+Lemma run_brack : forall off s rest res,
+  brack_ok s = true -> run off (s ++ rest) res = run off rest (res ++ s).
+Proof.
+  intros off s rest res H. unfold brack_ok in H. destruct s as [|c t]; [discriminate H|].
+  apply andb_prop in H as [Hc Hs]. cbn [app]. rewrite run_cons. unfold rcn_step.
+  apply N.eqb_eq in Hc. subst c. change ((ch_lbrack =? ch_dquote) || (ch_lbrack =? ch_apos)) with false.
+  cbn iota. rewrite N.eqb_refl.
+  change (ch_lbrack :: t ++ rest) with ((ch_lbrack :: t) ++ rest).
+  rewrite (scan_bracket_span _ _ rest Hs). reflexivity.
+Qed.
+
+(* ------------------------------------------------------------------ concrete ASCII characters *)
+Lemma plain_ascii : forall c, c < 128 -> ascii_wordch c = false ->
+  c <> ch_dquote -> c <> ch_apos -> c <> ch_lbrack -> plain_char c.
+Proof.
+  intros c H W H1 H2 H3. repeat split; try assumption. rewrite wordch_ascii by exact H. exact W.
+Qed.
+Ltac plain_tac := apply plain_ascii; [reflexivity|reflexivity|discriminate|discriminate|discriminate].
+
+Lemma wordch_ascii_all : forall w,
+  forallb (fun c => c <? 128) w = true -> forallb ascii_wordch w = true -> forallb wordch w = true.
+Proof.
+  induction w as [|c w IH]; intros H1 H2; [reflexivity|]. cbn [forallb] in *.
+  apply andb_prop in H1 as [A1 B1]. apply andb_prop in H2 as [A2 B2].
+  rewrite wordch_ascii by (apply N.ltb_lt; exact A1). rewrite A2. exact (IH B1 B2).
+Qed.
+Ltac word_tac := apply wordch_ascii_all; reflexivity.
+
+Lemma wordch_false_ascii : forall c, c < 128 -> ascii_wordch c = false -> wordch c = false.
+Proof. intros c H W. rewrite wordch_ascii by exact H. exact W. Qed.
+
+Lemma sym_plain : forall c, existsb (N.eqb c) sym_chars = true -> plain_char c.
+Proof.
+  intros c H. unfold sym_chars in H. cbn [existsb] in H.
+  repeat (apply orb_prop in H as [H|H]; [apply N.eqb_eq in H; subst c; plain_tac|]).
+  discriminate H.
+Qed.
+
+(* ------------------------------------------------------------------ offset_cell_name: applying the offset *)
+Lemma ocn_apply_ref : forall ca c ra r off, c < 16384 -> r < 1048576 -> off_ok off = true ->
+  ocn_apply (ca, Z.of_N c, ra, Z.of_N r) off
+  = Ok (if tok_in_range off (TRef ca c ra r)
+        then Some (render (translate off (TRef ca c ra r))) else None).
+Proof.
+  intros ca c ra r [dr dc] Hc Hr Hoff. unfold ocn_apply.
+  unfold off_ok, MAX_ROWS, MAX_COLUMNS in Hoff. cbn [fst snd] in *.
+  set (row' := if ra then Z.of_N r else (Z.of_N r + dr)%Z).
+  set (col' := if ca then Z.of_N c else (Z.of_N c + dc)%Z).
+  assert (E1 : (if ra then Ok (Z.of_N r) else add_i64 (Z.of_N r) dr) = Ok row').
+  { unfold row'. destruct ra; [reflexivity|]. unfold add_i64, I64MIN, I64MAX.
+    destruct ((-9223372036854775808 <=? Z.of_N r + dr)%Z && (Z.of_N r + dr <=? 9223372036854775807)%Z) eqn:E;
+      [reflexivity|lia]. }
+  assert (E2 : (if ca then Ok (Z.of_N c) else add_i64 (Z.of_N c) dc) = Ok col').
+  { unfold col'. destruct ca; [reflexivity|]. unfold add_i64, I64MIN, I64MAX.
+    destruct ((-9223372036854775808 <=? Z.of_N c + dc)%Z && (Z.of_N c + dc <=? 9223372036854775807)%Z) eqn:E;
+      [reflexivity|lia]. }
+  rewrite E1, E2. cbn [obind].
+  assert (E3 : in_sheet row' col' = tok_in_range (dr, dc) (TRef ca c ra r)).
+  { unfold in_sheet, tok_in_range, comp_in_range, ZROWS, ZCOLS, MAX_ROWS, MAX_COLUMNS, row', col'.
+    cbn [fst snd]. destruct ca, ra; cbn [orb]; lia. }
+  rewrite E3. destruct (tok_in_range (dr, dc) (TRef ca c ra r)) eqn:T; [|reflexivity].
+  cbn [negb].
+  assert (Hb : (0 <= row' < 1048576 /\ 0 <= col' < 16384)%Z).
+  { assert (T' : in_sheet row' col' = true) by (rewrite E3; try exact T; reflexivity).
+    unfold in_sheet, ZROWS, ZCOLS in T'. lia. }
+  assert (E4 : as_u32 col' = Z.to_N col').
+  { unfold as_u32. rewrite Z.mod_small by lia. reflexivity. }
+  rewrite E4. rewrite column_number_to_name_is_letters by lia.
+  unfold i64_to_string. destruct (row' + 1 <? 0)%Z eqn:E5; [lia|].
+  do 2 f_equal. cbn [translate render fst snd]. unfold render_ref, a1_ref.
+  assert (M1 : move ca c dc = Z.to_N col').
+  { unfold move, col'. destruct ca; lia. }
+  assert (M2 : move ra r dr + 1 = Z.to_N (row' + 1)).
+  { unfold move, row'. destruct ra; lia. }
+  rewrite M1, M2. destruct ca, ra; reflexivity.
+Qed.
+
+(* ------------------------------------------------------------------ words of the grammar *)
+Lemma letters_word : forall c, forallb wordch (letters c) = true.
+Proof.
+  intros c. apply Forall_forallb. eapply Forall_impl; [|apply letters_upper].
+  intros x Hx. apply wordch_upper. exact Hx.
+Qed.
+Lemma dec_word : forall n, forallb wordch (dec n) = true.
+Proof.
+  intros n. apply Forall_forallb. eapply Forall_impl; [|apply dec_digits].
+  intros x Hx. apply wordch_digit. exact Hx.
+Qed.
+Lemma dollar_word : forall a, forallb wordch (dollar a) = true.
+Proof. intros [|]; cbn [dollar forallb]; [rewrite wordch_dollar|]; reflexivity. Qed.
+Lemma digits_word : forall l, forallb is_digit l = true -> forallb wordch l = true.
+Proof. intros l. apply forallb_impl. exact wordch_digit. Qed.
+
+Lemma render_ref_eq : forall ca c ra r,
+  render_ref ca c ra r = dollar ca ++ letters c ++ dollar ra ++ dec (r + 1).
+Proof. intros [|] c [|] r; reflexivity. Qed.
+
+Lemma ends_word_app : forall v u,
+  u <> [] -> forallb wordch u = true -> ends_word is_alnum (v ++ u) = true.
+Proof.
+  intros v u Hne Hu. destruct (exists_last Hne) as (u' & c & E). subst u.
+  unfold ends_word. rewrite app_assoc, rev_app_distr. cbn [rev app].
+  rewrite word_char_eq. rewrite forallb_app in Hu. apply andb_prop in Hu as [_ Hc].
+  cbn [forallb] in Hc. rewrite andb_true_r in Hc. exact Hc.
+Qed.
+
+Lemma app_nonempty_r : forall (a b : list N), b <> [] -> a ++ b <> [].
+Proof. intros a b H E. apply app_eq_nil in E as [_ E]. exact (H E). Qed.
+Lemma app_nonempty_l : forall (a b : list N), a <> [] -> a ++ b <> [].
+Proof. intros a b H E. apply app_eq_nil in E as [E _]. exact (H E). Qed.
+Lemma nonempty_ne : forall l, nonempty l = true -> l <> [].
+Proof. intros [|x l] H; [discriminate H|discriminate]. Qed.
+
+Ltac lnorm := repeat (progress (rewrite <- ?app_assoc; cbn [app])); reflexivity.
+
+(* ------------------------------------------------------------------ one token *)
+Definition no3d (t : token) : bool :=
+  match t with TSheetRange n1 _ => negb (is_cell_name n1) | _ => true end.
+
+Section Token.
+Variable off : Z * Z.
+Hypothesis Hoff : off_ok off = true.
+
+Lemma tok_ref : forall ca c ra r s res,
+  tok_valid is_alnum (TRef ca c ra r) = true ->
+  (ends_word is_alnum (render (TRef ca c ra r)) = true -> sep_start s) ->
+  run off (render (TRef ca c ra r) ++ s) res
+  = run off s (res ++ render (translate_clip off (TRef ca c ra r))).
+Proof.
+  intros ca c ra r s res Hv Hs. cbn [tok_valid] in Hv. apply andb_prop in Hv as [Hc Hr].
+  unfold MAX_COLUMNS in Hc. unfold MAX_ROWS in Hr. apply N.ltb_lt in Hc, Hr.
+  cbn [render] in *.
+  assert (Hw : forallb wordch (render_ref ca c ra r) = true).
+  { rewrite render_ref_eq, !forallb_app, dollar_word, letters_word, dollar_word, dec_word. reflexivity. }
+  assert (Hne : render_ref ca c ra r <> []).
+  { rewrite render_ref_eq. do 3 apply app_nonempty_r. apply dec_nonempty. }
+  assert (Hsep : sep_start s).
+  { apply Hs. rewrite render_ref_eq, !app_assoc. apply ends_word_app; [apply dec_nonempty|apply dec_word]. }
+  rewrite run_word by (try assumption; apply sep_start_head_fails; exact Hsep).
+  rewrite (sep_start_next_call s Hsep). unfold offset_cell_name.
+  rewrite ocn_parse_ref by assumption. rewrite ocn_apply_ref by assumption. cbn [obind].
+  unfold translate_clip. destruct (tok_in_range off (TRef ca c ra r)); reflexivity.
+Qed.
+
+(* a token whose text is: inert word, separator char, inert word *)
+Lemma tok_word_sep_word : forall w1 x w2 s res,
+  w1 <> [] -> forallb wordch w1 = true -> ocn_parse w1 = None ->
+  plain_char x -> x <> ch_lparen -> x <> ch_bang ->
+  w2 <> [] -> forallb wordch w2 = true -> ocn_parse w2 = None ->
+  sep_start s ->
+  run off (w1 ++ [x] ++ w2 ++ s) res = run off s (res ++ w1 ++ [x] ++ w2).
+Proof.
+  intros w1 x w2 s res N1 W1 P1 Hx Hx1 Hx2 N2 W2 P2 Hs.
+  rewrite run_word_inert; try assumption.
+  - cbn [app]. rewrite run_other by exact Hx.
+    rewrite run_word_inert; try assumption.
+    + f_equal. rewrite <- !app_assoc. reflexivity.
+    + apply sep_start_head_fails. exact Hs.
+    + right. exact P2.
+  - cbn. exact (proj1 Hx).
+  - right. exact P1.
+Qed.
+
+Lemma tok_colrange : forall a1 c1 a2 c2 s res,
+  (ends_word is_alnum (render (TColRange a1 c1 a2 c2)) = true -> sep_start s) ->
+  run off (render (TColRange a1 c1 a2 c2) ++ s) res
+  = run off s (res ++ render (TColRange a1 c1 a2 c2)).
+Proof.
+  intros a1 c1 a2 c2 s res Hs. cbn [render] in *.
+  assert (Hsep : sep_start s).
+  { apply Hs. rewrite !app_assoc. apply ends_word_app; [apply letters_nonempty|apply letters_word]. }
+  replace ((dollar a1 ++ letters c1 ++ [ch_colon] ++ dollar a2 ++ letters c2) ++ s)
+    with ((dollar a1 ++ letters c1) ++ [ch_colon] ++ (dollar a2 ++ letters c2) ++ s)
+    by (rewrite <- !app_assoc; reflexivity).
+  rewrite tok_word_sep_word; try assumption.
+  - f_equal. rewrite <- !app_assoc. reflexivity.
+  - apply app_nonempty_r, letters_nonempty.
+  - rewrite forallb_app, dollar_word, letters_word. reflexivity.
+  - apply ocn_parse_letters_only.
+  - plain_tac.
+  - discriminate.
+  - discriminate.
+  - apply app_nonempty_r, letters_nonempty.
+  - rewrite forallb_app, dollar_word, letters_word. reflexivity.
+  - apply ocn_parse_letters_only.
+Qed.
+
+Lemma tok_rowrange : forall a1 r1 a2 r2 s res,
+  (ends_word is_alnum (render (TRowRange a1 r1 a2 r2)) = true -> sep_start s) ->
+  run off (render (TRowRange a1 r1 a2 r2) ++ s) res
+  = run off s (res ++ render (TRowRange a1 r1 a2 r2)).
+Proof.
+  intros a1 r1 a2 r2 s res Hs. cbn [render] in *.
+  assert (Hsep : sep_start s).
+  { apply Hs. rewrite !app_assoc. apply ends_word_app; [apply dec_nonempty|apply dec_word]. }
+  replace ((dollar a1 ++ dec (r1 + 1) ++ [ch_colon] ++ dollar a2 ++ dec (r2 + 1)) ++ s)
+    with ((dollar a1 ++ dec (r1 + 1)) ++ [ch_colon] ++ (dollar a2 ++ dec (r2 + 1)) ++ s)
+    by (rewrite <- !app_assoc; reflexivity).
+  rewrite tok_word_sep_word; try assumption.
+  - f_equal. rewrite <- !app_assoc. reflexivity.
+  - apply app_nonempty_r, dec_nonempty.
+  - rewrite forallb_app, dollar_word, dec_word. reflexivity.
+  - apply ocn_parse_digits_only.
+  - plain_tac.
+  - discriminate.
+  - discriminate.
+  - apply app_nonempty_r, dec_nonempty.
+  - rewrite forallb_app, dollar_word, dec_word. reflexivity.
+  - apply ocn_parse_digits_only.
+Qed.
+
+(* word followed by '!' or '(' : never translated, whatever it looks like *)
+Lemma tok_word_call : forall w x s res,
+  w <> [] -> forallb wordch w = true -> (x = ch_lparen \/ x = ch_bang) ->
+  run off (w ++ x :: s) res = run off s (res ++ w ++ [x]).
+Proof.
+  intros w x s res Hne Hw Hx.
+  assert (Px : plain_char x) by (destruct Hx; subst x; plain_tac).
+  rewrite run_word_inert; try assumption.
+  - rewrite run_other by exact Px. f_equal. rewrite <- app_assoc. reflexivity.
+  - cbn. exact (proj1 Px).
+  - left. cbn. destruct Hx; subst x; reflexivity.
+Qed.
+
+Lemma uname_word : forall n, forallb (uname_char is_alnum) n = true -> forallb wordch n = true.
+Proof. intros n. apply forallb_impl. exact wordch_uname. Qed.
+Lemma dname_word : forall n, forallb (dname_char is_alnum) n = true -> forallb wordch n = true.
+Proof. intros n. apply forallb_impl. exact wordch_dname. Qed.
+Lemma dname_no_dollar : forall n, forallb (dname_char is_alnum) n = true -> ~ In ch_dollar n.
+Proof.
+  intros n H C. rewrite forallb_forall in H. exact (dname_not_dollar _ (H _ C) eq_refl).
+Qed.
+Lemma uname_no_dollar : forall n, forallb (uname_char is_alnum) n = true -> ~ In ch_dollar n.
+Proof.
+  intros n H. apply dname_no_dollar. revert H. apply forallb_impl.
+  intros c Hc. unfold dname_char. rewrite Hc. reflexivity.
+Qed.
+
+Lemma tok_sheetrange : forall n1 n2 s res,
+  tok_valid is_alnum (TSheetRange n1 n2) = true -> is_cell_name n1 = false ->
+  run off (render (TSheetRange n1 n2) ++ s) res = run off s (res ++ render (TSheetRange n1 n2)).
+Proof.
+  intros n1 n2 s res Hv H3. cbn [tok_valid] in Hv.
+  apply andb_prop in Hv as [Hv U2]. apply andb_prop in Hv as [Hv N2].
+  apply andb_prop in Hv as [N1 U1]. cbn [render].
+  replace ((n1 ++ [ch_colon] ++ n2 ++ [ch_bang]) ++ s) with (n1 ++ [ch_colon] ++ (n2 ++ [ch_bang] ++ s))
+    by (rewrite <- !app_assoc; reflexivity).
+  rewrite run_word_inert.
+  - cbn [app]. rewrite run_other by plain_tac.
+    rewrite tok_word_call; [|apply nonempty_ne; exact N2|apply uname_word; exact U2|right; reflexivity].
+    f_equal. rewrite <- !app_assoc. reflexivity.
+  - apply nonempty_ne. exact N1.
+  - apply uname_word. exact U1.
+  - cbn. apply wordch_false_ascii; reflexivity.
+  - right. apply ocn_parse_not_cell; [apply uname_no_dollar; exact U1|exact H3].
+Qed.
+
+Lemma tok_name : forall n s res,
+  tok_valid is_alnum (TName n) = true ->
+  (ends_word is_alnum (render (TName n)) = true -> sep_start s) ->
+  run off (render (TName n) ++ s) res = run off s (res ++ render (TName n)).
+Proof.
+  intros n s res Hv Hs. cbn [tok_valid] in Hv. apply andb_prop in Hv as [Hv C].
+  apply andb_prop in Hv as [Ne D]. apply negb_true_iff in C. cbn [render] in *.
+  assert (Hsep : sep_start s).
+  { apply Hs. apply (ends_word_app []); [apply nonempty_ne; exact Ne|apply dname_word; exact D]. }
+  apply run_word_inert.
+  - apply nonempty_ne. exact Ne.
+  - apply dname_word. exact D.
+  - apply sep_start_head_fails. exact Hsep.
+  - right. apply ocn_parse_not_cell; [apply dname_no_dollar; exact D|exact C].
+Qed.
+
+Lemma digits_ok_inv : forall l, digits_ok l = true ->
+  exists d t, l = d :: t /\ is_digit d = true /\ forallb is_digit l = true.
+Proof.
+  intros l H. unfold digits_ok in H. apply andb_prop in H as [Ne D].
+  destruct l as [|d t]; [discriminate Ne|]. exists d, t. repeat split; [|exact D].
+  cbn [forallb] in D. apply andb_prop in D as [D _]. exact D.
+Qed.
+
+Lemma tok_num : forall ip fp ex s res,
+  tok_valid is_alnum (TNum ip fp ex) = true ->
+  (ends_word is_alnum (render (TNum ip fp ex)) = true -> sep_start s) ->
+  run off (render (TNum ip fp ex) ++ s) res = run off s (res ++ render (TNum ip fp ex)).
+Proof.
+  intros ip fp ex s res Hv Hs. cbn [tok_valid] in Hv.
+  apply andb_prop in Hv as [Hv Hex]. apply andb_prop in Hv as [Hip Hfp].
+  destruct (digits_ok_inv _ Hip) as (d & ipt & Eip & Hd & Dip).
+  set (fpp := match fp with Some f => ch_dot :: f | None => [] end).
+  assert (Wfp : forallb wordch fpp = true).
+  { unfold fpp. destruct fp as [f|]; [|reflexivity].
+    destruct (digits_ok_inv _ Hfp) as (_ & _ & _ & _ & Df). cbn [forallb].
+    rewrite (digits_word _ Df). rewrite wordch_ascii by reflexivity. reflexivity. }
+  (* the first word: ip ++ fpp ++ (E, or E followed by the unsigned exponent) *)
+  assert (Hw1 : forall tail, forallb wordch tail = true ->
+            (ip ++ fpp ++ tail) <> [] /\ forallb wordch (ip ++ fpp ++ tail) = true /\
+            ocn_parse (ip ++ fpp ++ tail) = None).
+  { intros tail Wt. repeat split.
+    - rewrite Eip. discriminate.
+    - rewrite !forallb_app, (digits_word _ Dip), Wfp, Wt. reflexivity.
+    - rewrite Eip. cbn [app]. apply ocn_parse_digit_start. exact Hd. }
+  cbn [render] in *. fold fpp in Hs. fold fpp.
+  destruct ex as [[[neg|] e]|].
+  - (* signed exponent: ip.fpE  sign  digits *)
+    destruct (digits_ok_inv _ Hex) as (de & et & Ee & Hde & De).
+    assert (Hsep : sep_start s).
+    { apply Hs. change (ch_E :: (if neg then ch_minus else ch_plus) :: e)
+        with ([ch_E; if neg then ch_minus else ch_plus] ++ e).
+      rewrite !app_assoc. apply ends_word_app; [rewrite Ee; discriminate|apply digits_word; exact De]. }
+    destruct (Hw1 [ch_E]) as (A1 & A2 & A3); [word_tac|].
+    set (sg := if neg then ch_minus else ch_plus).
+    assert (Psg : plain_char sg) by (unfold sg; destruct neg; plain_tac).
+    replace ((ip ++ fpp ++ ch_E :: sg :: e) ++ s) with ((ip ++ fpp ++ [ch_E]) ++ sg :: (e ++ s))
+      by (rewrite <- !app_assoc; reflexivity).
+    rewrite run_word_inert; [|exact A1|exact A2|cbn; exact (proj1 Psg)|right; exact A3].
+    rewrite run_other by exact Psg.
+    rewrite run_word_inert.
+    + f_equal. rewrite <- !app_assoc. reflexivity.
+    + rewrite Ee. discriminate.
+    + apply digits_word. exact De.
+    + apply sep_start_head_fails. exact Hsep.
+    + right. rewrite Ee. apply ocn_parse_digit_start. exact Hde.
+  - (* unsigned exponent: one word *)
+    destruct (digits_ok_inv _ Hex) as (de & et & Ee & Hde & De).
+    assert (We : forallb wordch (ch_E :: e) = true).
+    { cbn [forallb]. rewrite (digits_word _ De). rewrite wordch_ascii by reflexivity. reflexivity. }
+    destruct (Hw1 (ch_E :: e) We) as (A1 & A2 & A3).
+    assert (Hsep : sep_start s).
+    { apply Hs. apply (ends_word_app []); assumption. }
+    apply run_word_inert; [exact A1|exact A2|apply sep_start_head_fails; exact Hsep|right; exact A3].
+  - destruct (Hw1 [] eq_refl) as (A1 & A2 & A3).
+    assert (Hsep : sep_start s).
+    { apply Hs. apply (ends_word_app []); assumption. }
+    apply run_word_inert; [exact A1|exact A2|apply sep_start_head_fails; exact Hsep|right; exact A3].
+Qed.
+
+(* error literals *)
+Lemma tok_err_bang : forall w s res,
+  w <> [] -> forallb (fun c => c <? 128) w = true -> forallb ascii_wordch w = true ->
+  run off (35 :: w ++ ch_bang :: s) res = run off s (res ++ 35 :: w ++ [ch_bang]).
+Proof.
+  intros w s res Hne H1 H2. rewrite run_other by plain_tac.
+  rewrite tok_word_call; [|exact Hne|apply wordch_ascii_all; assumption|right; reflexivity].
+  f_equal. rewrite <- !app_assoc. reflexivity.
+Qed.
+
+Lemma tok_err : forall k s res,
+  tok_valid is_alnum (TErr k) = true ->
+  (ends_word is_alnum (render (TErr k)) = true -> sep_start s) ->
+  run off (render (TErr k) ++ s) res = run off s (res ++ render (TErr k)).
+Proof.
+  intros k s res Hv Hs. cbn [tok_valid] in Hv. apply N.ltb_lt in Hv.
+  assert (K : k = 0 \/ k = 1 \/ k = 2 \/ k = 3 \/ k = 4 \/ k = 5 \/ k = 6) by lia.
+  destruct K as [K|[K|[K|[K|[K|[K|K]]]]]]; subst k.
+  - change (render (TErr 0)) with (35 :: [78;85;76;76] ++ [ch_bang]).
+    change ((35 :: [78;85;76;76] ++ [ch_bang]) ++ s) with (35 :: [78;85;76;76] ++ ch_bang :: s).
+    apply tok_err_bang; [discriminate|reflexivity|reflexivity].
+  - (* #DIV/0! *)
+    change (render (TErr 1)) with [35;68;73;86;47;48;33].
+    change ([35;68;73;86;47;48;33] ++ s) with (35 :: [68;73;86] ++ 47 :: ([48] ++ ch_bang :: s)).
+    rewrite run_other by plain_tac.
+    rewrite run_word_inert; [|discriminate|word_tac|cbn; apply wordch_false_ascii; reflexivity|right; reflexivity].
+    rewrite run_other by plain_tac.
+    rewrite tok_word_call; [|discriminate|word_tac|right; reflexivity].
+    f_equal. rewrite <- !app_assoc. reflexivity.
+  - change (render (TErr 2)) with (35 :: [86;65;76;85;69] ++ [ch_bang]).
+    change ((35 :: [86;65;76;85;69] ++ [ch_bang]) ++ s) with (35 :: [86;65;76;85;69] ++ ch_bang :: s).
+    apply tok_err_bang; [discriminate|reflexivity|reflexivity].
+  - change (render (TErr 3)) with (35 :: [82;69;70] ++ [ch_bang]).
+    change ((35 :: [82;69;70] ++ [ch_bang]) ++ s) with (35 :: [82;69;70] ++ ch_bang :: s).
+    apply tok_err_bang; [discriminate|reflexivity|reflexivity].
+  - (* #NAME? *)
+    change (render (TErr 4)) with ([35] ++ [78;65;77;69;63]) in *.
+    assert (Hsep : sep_start s).
+    { apply Hs. apply ends_word_app; [discriminate|word_tac]. }
+    change (([35] ++ [78;65;77;69;63]) ++ s) with (35 :: [78;65;77;69;63] ++ s).
+    rewrite run_other by plain_tac.
+    rewrite run_word_inert; [|discriminate|word_tac|apply sep_start_head_fails; exact Hsep|right; reflexivity].
+    f_equal. rewrite <- !app_assoc. reflexivity.
+  - change (render (TErr 5)) with (35 :: [78;85;77] ++ [ch_bang]).
+    change ((35 :: [78;85;77] ++ [ch_bang]) ++ s) with (35 :: [78;85;77] ++ ch_bang :: s).
+    apply tok_err_bang; [discriminate|reflexivity|reflexivity].
+  - (* #N/A *)
+    change (render (TErr 6)) with ([35;78;47] ++ [65]) in *.
+    assert (Hsep : sep_start s).
+    { apply Hs. apply ends_word_app; [discriminate|word_tac]. }
+    change (([35;78;47] ++ [65]) ++ s) with (35 :: [78] ++ 47 :: ([65] ++ s)).
+    rewrite run_other by plain_tac.
+    rewrite run_word_inert; [|discriminate|word_tac|cbn; apply wordch_false_ascii; reflexivity|right; reflexivity].
+    rewrite run_other by plain_tac.
+    rewrite run_word_inert; [|discriminate|word_tac|apply sep_start_head_fails; exact Hsep|right; reflexivity].
+    f_equal. rewrite <- !app_assoc. reflexivity.
+Qed.
+
+(* every token of the grammar: the scanner consumes exactly its text and emits the text of
+   the token translated (references that stay on the sheet) or unchanged (everything else) *)
+Lemma token_run : forall t s res,
+  tok_valid is_alnum t = true -> no3d t = true ->
+  (ends_word is_alnum (render t) = true -> sep_start s) ->
+  run off (render t ++ s) res = run off s (res ++ render (translate_clip off t)).
+Proof.
+  intros t s res Hv H3 Hs. destruct t as [ca c ra r|a1 c1 a2 c2|a1 r1 a2 r2|q n|n1 n2|n|n|ip fp ex|str|b|c|k].
+  - apply tok_ref; assumption.
+  - apply tok_colrange; assumption.
+  - apply tok_rowrange; assumption.
+  - cbn [translate_clip]. destruct q; cbn [tok_valid] in Hv; apply andb_prop in Hv as [Ne Hn]; cbn [render].
+    + (* quoted *)
+      change (([ch_apos] ++ double_ch ch_apos n ++ [ch_apos; ch_bang]) ++ s)
+        with ([ch_apos] ++ (double_ch ch_apos n ++ [ch_apos; ch_bang]) ++ s).
+      rewrite <- (app_assoc (double_ch ch_apos n)). cbn [app].
+      change (ch_apos :: double_ch ch_apos n ++ ch_apos :: ch_bang :: s)
+        with ([ch_apos] ++ double_ch ch_apos n ++ ch_apos :: (ch_bang :: s)).
+      rewrite run_quoted by (right; reflexivity).
+      rewrite run_other by plain_tac. f_equal. lnorm.
+    + rewrite <- app_assoc. cbn [app]. rewrite tok_word_call; [reflexivity|apply nonempty_ne; exact Ne|
+        apply uname_word; exact Hn|right; reflexivity].
+  - cbn [translate_clip]. apply tok_sheetrange; [exact Hv|]. cbn [no3d] in H3.
+    apply negb_true_iff in H3. exact H3.
+  - cbn [translate_clip]. cbn [tok_valid] in Hv. apply andb_prop in Hv as [Ne Hn]. cbn [render].
+    rewrite <- app_assoc. cbn [app]. rewrite tok_word_call; [reflexivity|apply nonempty_ne; exact Ne|
+      apply uname_word; exact Hn|left; reflexivity].
+  - apply tok_name; assumption.
+  - apply tok_num; assumption.
+  - cbn [translate_clip render].
+    change (([ch_dquote] ++ double_ch ch_dquote str ++ [ch_dquote]) ++ s)
+      with ([ch_dquote] ++ (double_ch ch_dquote str ++ [ch_dquote]) ++ s).
+    rewrite <- (app_assoc (double_ch ch_dquote str)). cbn [app].
+    change (ch_dquote :: double_ch ch_dquote str ++ ch_dquote :: s)
+      with ([ch_dquote] ++ double_ch ch_dquote str ++ ch_dquote :: s).
+    rewrite run_quoted by (left; reflexivity). reflexivity.
+  - cbn [translate_clip render]. cbn [tok_valid] in Hv. apply run_brack. exact Hv.
+  - cbn [translate_clip render]. cbn [tok_valid] in Hv. cbn [app]. apply run_other.
+    apply sym_plain. exact Hv.
+  - apply tok_err; assumption.
+Qed.
+
+(* ------------------------------------------------------------------ a whole formula *)
+Lemma render_nonempty : forall t, tok_valid is_alnum t = true -> render t <> [].
+Proof.
+  intros t Hv. destruct t as [ca c ra r|a1 c1 a2 c2|a1 r1 a2 r2|q n|n1 n2|n|n|ip fp ex|str|b|c|k];
+    cbn [render].
+  - rewrite render_ref_eq. do 3 apply app_nonempty_r. apply dec_nonempty.
+  - do 4 apply app_nonempty_r. apply letters_nonempty.
+  - do 4 apply app_nonempty_r. apply dec_nonempty.
+  - destruct q; [discriminate|apply app_nonempty_r; discriminate].
+  - do 3 apply app_nonempty_r. discriminate.
+  - apply app_nonempty_r. discriminate.
+  - cbn [tok_valid] in Hv. apply andb_prop in Hv as [Hv _]. apply andb_prop in Hv as [Ne _].
+    apply nonempty_ne. exact Ne.
+  - cbn [tok_valid] in Hv. apply andb_prop in Hv as [Hv _]. apply andb_prop in Hv as [Hip _].
+    destruct (digits_ok_inv _ Hip) as (d & t & E & _). rewrite E. discriminate.
+  - discriminate.
+  - cbn [tok_valid] in Hv. unfold brack_ok in Hv. destruct b; [discriminate Hv|discriminate].
+  - discriminate.
+  - cbn [tok_valid] in Hv. apply N.ltb_lt in Hv.
+    assert (K : k = 0 \/ k = 1 \/ k = 2 \/ k = 3 \/ k = 4 \/ k = 5 \/ k = 6) by lia.
+    destruct K as [K|[K|[K|[K|[K|[K|K]]]]]]; subst k; discriminate.
+Qed.
+
+Lemma starts_sep_start : forall u s, starts_sep is_alnum u = true -> sep_start (u ++ s).
+Proof.
+  intros [|c u] s H; [discriminate H|]. cbn [starts_sep] in H. cbn [app sep_start].
+  apply andb_prop in H as [H H2]. apply andb_prop in H as [H0 H1].
+  rewrite word_char_eq in H0. apply negb_true_iff in H0, H1, H2.
+  apply N.eqb_neq in H1, H2. auto.
+Qed.
+
+Lemma formula_run : forall ts res,
+  forallb (tok_valid is_alnum) ts = true -> adjacent_ok is_alnum ts = true ->
+  forallb no3d ts = true ->
+  run off (render_all ts) res = Ok (res ++ render_all (map (translate_clip off) ts)).
+Proof.
+  induction ts as [|t ts IH]; intros res Hv Ha H3.
+  - cbn. rewrite app_nil_r. reflexivity.
+  - cbn [forallb] in Hv, H3. apply andb_prop in Hv as [Hv Hvs]. apply andb_prop in H3 as [H3 H3s].
+    unfold render_all. cbn [map concat]. fold (render_all ts).
+    fold (render_all (map (translate_clip off) ts)).
+    rewrite token_run; [| exact Hv | exact H3 |].
+    + rewrite IH; [rewrite app_assoc; reflexivity|exact Hvs| |exact H3s].
+      destruct ts as [|b ts']; [reflexivity|]. cbn [adjacent_ok] in Ha.
+      apply andb_prop in Ha as [_ Ha]. exact Ha.
+    + intros He. destruct ts as [|b ts']; [exact I|].
+      cbn [adjacent_ok] in Ha. apply andb_prop in Ha as [Ha _]. rewrite He in Ha.
+      unfold render_all. cbn [map concat]. apply starts_sep_start. exact Ha.
+Qed.
+End Token.
+
+Lemma no3d_of_known : forall off ts, known_at off ts = None -> forallb no3d ts = true.
+Proof.
+  induction ts as [|t ts IH]; intros H; [reflexivity|]. cbn [known_at] in H. cbn [forallb].
+  destruct (known_token_at off t) eqn:K; [discriminate H|]. rewrite (IH H), andb_true_r.
+  destruct t; try reflexivity. cbn [known_token_at known_token] in K. cbn [no3d].
+  destruct (is_cell_name n1); [discriminate K|reflexivity].
+Qed.
+
+Lemma known_at_of_known : forall off ts, known_C15 ts = None -> known_at off ts = None.
+Proof.
+  induction ts as [|t ts IH]; intros H; [reflexivity|]. cbn [known_C15] in H. cbn [known_at].
+  destruct (known_token t) eqn:K; [discriminate H|]. rewrite (IH H).
+  destruct t; cbn [known_token_at]; try (rewrite K; reflexivity);
+    cbn [known_token] in K; destruct (a1 && a2); try discriminate K; reflexivity.
+Qed.
+
+Lemma move_zero : forall a x, move a x 0 = x.
+Proof. intros a x. unfold move. destruct a; lia. Qed.
+
+(* inside in_range and outside the known classes, what the code does is the translation *)
+Lemma clip_is_translate : forall off ts,
+  forallb (tok_in_range off) ts = true -> known_at off ts = None ->
+  map (translate_clip off) ts = map (translate off) ts.
+Proof.
+  induction ts as [|t ts IH]; intros Hr Hk; [reflexivity|].
+  cbn [forallb] in Hr. apply andb_prop in Hr as [Hr Hrs]. cbn [known_at] in Hk.
+  destruct (known_token_at off t) eqn:K; [discriminate Hk|]. cbn [map]. rewrite (IH Hrs Hk).
+  f_equal. destruct t; try reflexivity.
+  - cbn [translate_clip]. rewrite Hr. reflexivity.
+  - cbn [known_token_at] in K. cbn [translate_clip translate].
+    destruct ((a1 && a2) || (snd off =? 0)%Z) eqn:E; [|discriminate K].
+    apply orb_prop in E as [E|E].
+    + apply andb_prop in E as [E1 E2]. subst. reflexivity.
+    + apply Z.eqb_eq in E. rewrite E, !move_zero. reflexivity.
+  - cbn [known_token_at] in K. cbn [translate_clip translate].
+    destruct ((a1 && a2) || (fst off =? 0)%Z) eqn:E; [|discriminate K].
+    apply orb_prop in E as [E|E].
+    + apply andb_prop in E as [E1 E2]. subst. reflexivity.
+    + apply Z.eqb_eq in E. rewrite E, !move_zero. reflexivity.
+Qed.
+
+(* MAIN (total form): every formula of the grammar, every offset between two cells of the sheet *)
+Theorem translate_total : forall ts off,
+  wf_formula is_alnum ts = true -> off_ok off = true -> forallb no3d ts = true ->
+  rcn (render_all ts) off = Ok (render_all (map (translate_clip off) ts)).
+Proof.
+  intros ts off Hwf Hoff H3. unfold wf_formula in Hwf. apply andb_prop in Hwf as [Hv Ha].
+  rewrite rcn_run. rewrite (formula_run off Hoff ts [] Hv Ha H3). reflexivity.
+Qed.
+
+(* MAIN: the quantifier of the property over formulas x offsets *)
+Theorem translate_correct_at : forall ts off,
+  wf_formula is_alnum ts = true -> in_range ts off -> known_at off ts = None ->
+  rcn (render_all ts) off = Ok (render_all (map (translate off) ts)).
+Proof.
+  intros ts off Hwf Hr Hk. unfold in_range, in_rangeb in Hr. apply andb_prop in Hr as [Hoff Hr].
+  rewrite translate_total; [|exact Hwf|exact Hoff|exact (no3d_of_known off ts Hk)].
+  rewrite (clip_is_translate off ts Hr Hk). reflexivity.
+Qed.
+
+Theorem translate_correct : forall ts off,
+  wf_formula is_alnum ts = true -> in_range ts off -> known_C15 ts = None ->
+  rcn (render_all ts) off = Ok (render_all (map (translate off) ts)).
+Proof.
+  intros ts off Hwf Hr Hk. apply translate_correct_at; [exact Hwf|exact Hr|].
+  apply known_at_of_known. exact Hk.
+Qed.
+
+(* ------------------------------------------------------------------ no panic, no error, enough fuel *)
+(* offsets far beyond any sheet: |d| <= 2^62 *)
+Definition off_small (off : Z * Z) : Prop :=
+  (- 4611686018427387904 <= fst off <= 4611686018427387904 /\
+   - 4611686018427387904 <= snd off <= 4611686018427387904)%Z.
+
+Lemma scan_bracket_ok : forall l d, 0 < d -> exists er, scan_bracket l d = Ok er.
+Proof.
+  induction l as [|x t IH]; intros d Hd; [eexists; reflexivity|]. cbn [scan_bracket].
+  destruct (x =? ch_lbrack).
+  - cbn [obind]. destruct (d + 1 =? 0) eqn:E; [eexists; reflexivity|].
+    destruct (IH (d + 1) ltac:(lia)) as (er & Her). rewrite Her. eexists; reflexivity.
+  - destruct (x =? ch_rbrack).
+    + destruct (d =? 0) eqn:E0; [apply N.eqb_eq in E0; lia|]. cbn [obind].
+      destruct (d - 1 =? 0) eqn:E; [eexists; reflexivity|].
+      apply N.eqb_neq in E. destruct (IH (d - 1) ltac:(lia)) as (er & Her). rewrite Her.
+      eexists; reflexivity.
+    + cbn [obind]. destruct (d =? 0) eqn:E; [eexists; reflexivity|].
+      destruct (IH d Hd) as (er & Her). rewrite Her. eexists; reflexivity.
+Qed.
+
+Lemma fold26_nonneg_alpha : forall a x, forallb is_alpha a = true -> (0 <= x)%Z ->
+  (0 <= fold_left zf26 a x)%Z.
+Proof.
+  induction a as [|c a IH]; intros x Ha Hx; [exact Hx|]. cbn [fold_left forallb] in *.
+  apply andb_prop in Ha as [Hc Ha]. apply IH; [exact Ha|].
+  unfold zf26. pose proof (to_upper_is_upper c Hc) as U. unfold is_upper, ch_A, ch_Z in U. lia.
+Qed.
+Lemma fold10_nonneg : forall a x, forallb is_digit a = true -> (0 <= x)%Z ->
+  (0 <= fold_left zf10 a x)%Z.
+Proof.
+  induction a as [|c a IH]; intros x Ha Hx; [exact Hx|]. cbn [fold_left forallb] in *.
+  apply andb_prop in Ha as [Hc Ha]. apply IH; [exact Ha|].
+  unfold zf10. unfold is_digit, ch_0, ch_9 in Hc. lia.
+Qed.
+
+Lemma ocn_parse_bounds : forall name ca col ra row,
+  ocn_parse name = Some (ca, col, ra, row) -> (-1 <= row < 1048576 /\ -1 <= col < 16384)%Z.
+Proof.
+  intros name ca col ra row H. unfold ocn_parse in H.
+  rewrite ocn_letters_span in H by lia. cbn [Nat.add] in H.
+  set (l0 := if starts_dollar name then tl name else name) in *.
+  pose proof (span_fst_all is_alpha l0) as Ha.
+  destruct (span is_alpha l0) as [a l1]. cbn [fst snd] in *.
+  destruct (length a <=? 3)%nat; [|discriminate H].
+  destruct (length a =? 0)%nat; [discriminate H|].
+  rewrite ocn_digits_span in H by lia. cbn [Nat.add] in H.
+  set (l2 := if starts_dollar l1 then tl l1 else l1) in *.
+  pose proof (span_fst_all is_digit l2) as Hd.
+  destruct (span is_digit l2) as [ds l3]. cbn [fst snd] in *.
+  destruct (length ds <=? 7)%nat; [|discriminate H].
+  destruct ((length ds =? 0)%nat || negb (is_nil l3) || (hd 0 l2 =? ch_0)); [discriminate H|].
+  pose proof (fold26_nonneg_alpha a 0%Z Ha ltac:(lia)) as P1.
+  pose proof (fold10_nonneg ds 0%Z Hd ltac:(lia)) as P2.
+  unfold ZROWS, ZCOLS in H.
+  destruct ((1048576 <=? fold_left zf10 ds 0 - 1)%Z || (16384 <=? fold_left zf26 a 0 - 1)%Z) eqn:E;
+    [discriminate H|].
+  inversion H; subst. lia.
+Qed.
+
+Lemma ocn_total : forall w off, off_small off -> exists o, offset_cell_name w off = Ok o.
+Proof.
+  intros w [dr dc] [Hr Hc]. cbn [fst snd] in *. unfold offset_cell_name.
+  destruct (ocn_parse w) as [[[[ca col] ra] row]|] eqn:P; [|eexists; reflexivity].
+  apply ocn_parse_bounds in P. unfold ocn_apply. cbn [fst snd].
+  assert (E1 : exists row', (if ra then Ok row else add_i64 row dr) = Ok row').
+  { destruct ra; [eexists; reflexivity|]. unfold add_i64, I64MIN, I64MAX.
+    destruct ((-9223372036854775808 <=? row + dr)%Z && (row + dr <=? 9223372036854775807)%Z) eqn:E;
+      [eexists; reflexivity|lia]. }
+  assert (E2 : exists col', (if ca then Ok col else add_i64 col dc) = Ok col').
+  { destruct ca; [eexists; reflexivity|]. unfold add_i64, I64MIN, I64MAX.
+    destruct ((-9223372036854775808 <=? col + dc)%Z && (col + dc <=? 9223372036854775807)%Z) eqn:E;
+      [eexists; reflexivity|lia]. }
+  destruct E1 as (row' & E1). destruct E2 as (col' & E2). rewrite E1, E2. cbn [obind].
+  destruct (in_sheet row' col') eqn:S; cbn [negb]; [|eexists; reflexivity].
+  unfold in_sheet, ZROWS, ZCOLS in S.
+  assert (E4 : as_u32 col' = Z.to_N col').
+  { unfold as_u32. rewrite Z.mod_small by lia. reflexivity. }
+  rewrite E4. rewrite column_number_to_name_is_letters by lia. eexists; reflexivity.
+Qed.
+
+Lemma rcn_step_total : forall off c t, off_small off ->
+  exists er, rcn_step is_alnum off c t = Ok er.
+Proof.
+  intros off c t Hoff. unfold rcn_step.
+  destruct ((c =? ch_dquote) || (c =? ch_apos)); [eexists; reflexivity|].
+  destruct (c =? ch_lbrack) eqn:B.
+  { cbn [scan_bracket]. rewrite B. cbn [obind]. change (0 + 1 =? 0) with false. cbn iota.
+    destruct (scan_bracket_ok t (0 + 1) ltac:(lia)) as (er & Her). rewrite Her.
+    eexists; reflexivity. }
+  destruct (wordch c); [|eexists; reflexivity].
+  set (wr := span wordch (c :: t)).
+  destruct (ocn_total (fst wr) off Hoff) as (o & Ho).
+  destruct (snd wr) as [|x r'].
+  - rewrite Ho. eexists; reflexivity.
+  - destruct ((x =? ch_lparen) || (x =? ch_bang)); [eexists; reflexivity|].
+    rewrite Ho. eexists; reflexivity.
+Qed.
+
+Lemma run_total : forall off, off_small off ->
+  forall n l res, (length l <= n)%nat -> exists r, run off l res = Ok r.
+Proof.
+  intros off Hoff. induction n as [|n IH]; intros l res Hl.
+  - destruct l; [eexists; apply run_nil|cbn in Hl; lia].
+  - destruct l as [|c t]; [eexists; apply run_nil|]. rewrite run_cons.
+    destruct (rcn_step_total off c t Hoff) as ([e r] & Hs). rewrite Hs. cbn [obind fst snd].
+    apply IH. apply rcn_step_len in Hs. cbn [length] in Hl. lia.
+Qed.
+
+(* replace_cell_names is total on every text: never a panic (bracket depth, i64), never an
+   error, the fuel of the model suffices *)
+Theorem rcn_total : forall s off, off_small off -> exists r, rcn s off = Ok r.
+Proof. intros s off Hoff. rewrite rcn_run. apply (run_total off Hoff (length s)). lia. Qed.
+
+Lemma off_ok_small : forall off, off_ok off = true -> off_small off.
+Proof.
+  intros [dr dc] H. unfold off_ok, MAX_ROWS, MAX_COLUMNS in H. unfold off_small. cbn [fst snd] in *. lia.
+Qed.
+
+(* ------------------------------------------------------------------ groups *)
+Definition enc_group (g : group) : N * group_entry :=
+  (g_si g, (render_all (g_tokens g), ((g_start g, g_end g), g_master g))).
+
+Lemma fm_get_enc : forall seen si,
+  fm_get (map enc_group seen) si
+  = match find_group seen si with Some g => Some (snd (enc_group g)) | None => None end.
+Proof.
+  induction seen as [|g seen IH]; intros si; [reflexivity|].
+  cbn [map fm_get enc_group find_group find fst snd]. destruct (g_si g =? si); [reflexivity|].
+  apply IH.
+Qed.
+
+Lemma ref_text_dimension : forall g, group_okb g = true ->
+  get_dimension (ref_text (g_start g) (g_end g)) = Ok (g_start g, g_end g).
+Proof.
+  intros g H. unfold group_okb, MAX_ROWS, MAX_COLUMNS in H.
+  destruct (g_start g) as [r0 c0], (g_end g) as [r1 c1]. cbn [fst snd] in *. unfold ref_text. cbn [fst snd].
+  apply get_dimension_pair; unfold ROW_TEXT_LIMIT, COL_TEXT_LIMIT; lia.
+Qed.
+
+Definition cell_okb (seen : list group) (c : scell) : bool :=
+  match c with
+  | SMaster g => group_okb g
+  | SMember p si _ =>
+      match find_group seen si with
+      | Some g => if in_box (g_start g) (g_end g) p then member_okb is_alnum g p else true
+      | None => true
+      end
+  | _ => true
   end.
 
-Lemma rcn_bytes_eq : forall s off,
-  rcn_bytes s off = do st <- rcn_loop off s rs_init; finish off st.
-Proof. reflexivity. Qed.
-
-Lemma flush_nil : forall off, flush_cell [] off = Ok [].
-Proof. intros off. reflexivity. Qed.
-
-Lemma finish_eq : forall off st,
-  finish off st = do f <- flush_cell (rs_cell st) off; Ok (rs_res st ++ f).
+Lemma cell_step_spec : forall seen c, cell_okb seen c = true ->
+  cell_step is_alnum (map enc_group seen) (fst (encode_cell c)) (snd (encode_cell c))
+  = Ok (map enc_group (seen_after seen c), spec_value seen c).
 Proof.
-  intros off st. unfold finish. destruct (rs_cell st) eqn:E; [|reflexivity].
-  rewrite flush_nil. cbn [obind]. rewrite app_nil_r. reflexivity.
-Qed.
-
-Lemma rcn_loop_app : forall off u s st,
-  rcn_loop off (u ++ s) st = do st' <- rcn_loop off u st; rcn_loop off s st'.
-Proof.
-  induction u as [|c u IH]; intros s st; [reflexivity|].
-  cbn [app rcn_loop]. rewrite obind_assoc. apply obind_ext. intros a. apply IH.
-Qed.
-
-Definition with_pre (p : list N) (st : rstate) : rstate :=
-  mkR (p ++ rs_res st) (rs_cell st) (rs_icr st) (rs_inq st).
-
-Lemma step_pre : forall off p st c,
-  rcn_step off (with_pre p st) c = do st' <- rcn_step off st c; Ok (with_pre p st').
-Proof.
-  intros off p st c. unfold rcn_step, with_pre. cbn [rs_res rs_cell rs_icr rs_inq].
-  destruct (if c =? ch_dquote then negb (rs_inq st) else rs_inq st).
-  - cbn [obind rs_res rs_cell rs_icr rs_inq]. rewrite app_assoc. reflexivity.
-  - destruct (is_alpha c).
-    + destruct (rs_icr st); cbn [obind rs_res rs_cell rs_icr rs_inq]; rewrite ?app_assoc; reflexivity.
-    + destruct (is_digit c); [reflexivity|].
-      destruct (flush_cell (rs_cell st) off); cbn [obind rs_res rs_cell rs_icr rs_inq]; try reflexivity.
-      rewrite !app_assoc. reflexivity.
-Qed.
-
-Lemma loop_pre : forall off p s st,
-  rcn_loop off s (with_pre p st) = do st' <- rcn_loop off s st; Ok (with_pre p st').
-Proof.
-  induction s as [|c s IH]; intros st; [reflexivity|].
-  cbn [rcn_loop]. rewrite step_pre, !obind_assoc. apply obind_ext. intros a.
-  cbn [obind]. apply IH.
-Qed.
-
-Lemma finish_pre : forall off p st,
-  finish off (with_pre p st) = do b <- finish off st; Ok (p ++ b).
-Proof.
-  intros off p st. rewrite !finish_eq. unfold with_pre. cbn [rs_res rs_cell].
-  rewrite obind_assoc. apply obind_ext. intros a. cbn [obind]. rewrite app_assoc. reflexivity.
-Qed.
-
-(* ------------------------------------------------------------------ the offset-independent part of the state *)
-Definition pst (st : rstate) : pstate := (rs_cell st, rs_icr st, rs_inq st).
-
-Lemma step_pst : forall off st c st',
-  rcn_step off st c = Ok st' -> pst st' = padv (pst st) c.
-Proof.
-  intros off st c st' H. unfold rcn_step in H. unfold padv, pst. cbn [fst snd].
-  destruct (if c =? ch_dquote then negb (rs_inq st) else rs_inq st) eqn:Q.
-  - inversion H; subst. reflexivity.
-  - destruct (is_alpha c).
-    + destruct (rs_icr st); inversion H; subst; reflexivity.
-    + destruct (is_digit c); [inversion H; subst; reflexivity|].
-      destruct (flush_cell (rs_cell st) off); cbn [obind] in H; inversion H; subst. reflexivity.
-Qed.
-
-Lemma loop_pst : forall off u st st',
-  rcn_loop off u st = Ok st' -> pst st' = fold_left padv u (pst st).
-Proof.
-  induction u as [|c u IH]; intros st st' H.
-  - inversion H; subst. reflexivity.
-  - cbn [rcn_loop] in H. destruct (rcn_step off st c) as [s1| | |] eqn:E; cbn [obind] in H; try discriminate.
-    cbn [fold_left]. rewrite <- (step_pst _ _ _ E). apply IH. exact H.
-Qed.
-
-(* invariant: an empty candidate has is_cell_row = false *)
-Definition pinv (p : pstate) : Prop := fst (fst p) = [] -> snd (fst p) = false.
-Lemma padv_inv : forall p c, pinv p -> pinv (padv p c).
-Proof.
-  intros [[cell icr] inq] c H. unfold pinv, padv in *. cbn [fst snd] in *.
-  destruct (if c =? ch_dquote then negb inq else inq); [exact H|].
-  destruct (is_alpha c).
-  - destruct icr; cbn [fst snd]; [discriminate|].
-    intros E. apply app_eq_nil in E. destruct E as [_ E]. discriminate.
-  - destruct (is_digit c); cbn [fst snd]; [|reflexivity].
-    intros E. apply app_eq_nil in E. destruct E as [_ E]. discriminate.
-Qed.
-Lemma fold_padv_inv : forall u p, pinv p -> pinv (fold_left padv u p).
-Proof. induction u as [|c u IH]; intros p H; [exact H|]. cbn [fold_left]. apply IH, padv_inv, H. Qed.
-
-(* a pending candidate outside a string means the text ends with a letter or digit *)
-Lemma pending_ends_alnum : forall u p0,
-  fst (fst p0) = [] ->
-  snd (fold_left padv u p0) = false -> fst (fst (fold_left padv u p0)) <> [] ->
-  ends_alnum u = true.
-Proof.
-  intros u p0 H0. destruct u as [|c u] using rev_ind; intros Hq Hc.
-  - cbn in Hc. congruence.
-  - clear IHu. rewrite fold_left_app in *. cbn [fold_left] in *.
-    unfold ends_alnum. rewrite rev_app_distr. cbn [rev app].
-    destruct (fold_left padv u p0) as [[cell icr] inq]. unfold padv in *. cbn [fst snd] in *.
-    destruct (if c =? ch_dquote then negb inq else inq); cbn [fst snd] in *; [discriminate|].
-    unfold is_alnum. destruct (is_alpha c); [reflexivity|].
-    destruct (is_digit c); [reflexivity|]. cbn [fst snd] in Hc. congruence.
-Qed.
-
-(* ------------------------------------------------------------------ splitting the text at a safe boundary *)
-Definition sep_or_nil (s : list N) : bool :=
-  match s with [] => true | _ => starts_sep s end.
-
-Lemma step_init_sep : forall off d, is_alnum d = false -> (d =? ch_dquote) = false ->
-  rcn_step off rs_init d = Ok (mkR [u8 d] [] false false).
-Proof.
-  intros off d Ha Hq. unfold rcn_step, rs_init. cbn [rs_res rs_cell rs_icr rs_inq].
-  rewrite Hq. unfold is_alnum in Ha. apply orb_false_iff in Ha. destruct Ha as [Ha Hd].
-  rewrite Ha, Hd. rewrite flush_nil. reflexivity.
-Qed.
-
-Theorem rcn_split : forall off u s,
-  (forall st', rcn_loop off u rs_init = Ok st' ->
-     rs_inq st' = false /\ (rs_cell st' = [] \/ sep_or_nil s = true)) ->
-  rcn_bytes (u ++ s) off = do a <- rcn_bytes u off; do b <- rcn_bytes s off; Ok (a ++ b).
-Proof.
-  intros off u s H. rewrite !rcn_bytes_eq, rcn_loop_app, !obind_assoc.
-  destruct (rcn_loop off u rs_init) as [st'| | |] eqn:E; try reflexivity.
-  cbn [obind]. destruct (H st' eq_refl) as [Hq Hc].
-  pose proof (loop_pst _ _ _ E) as Hp.
-  assert (Hinv : pinv (pst st')).
-  { rewrite Hp. apply fold_padv_inv. unfold pinv, pst, rs_init. cbn. auto. }
-  destruct st' as [res cell icr inq]. cbn [rs_inq rs_cell] in *. subst inq.
-  destruct cell as [|c0 cell].
-  - (* nothing pending *)
-    assert (icr = false) by (apply Hinv; reflexivity). subst icr.
-    replace (mkR res [] false false) with (with_pre res rs_init)
-      by (unfold with_pre, rs_init; cbn; rewrite app_nil_r; reflexivity).
-    rewrite loop_pre, obind_assoc.
-    rewrite finish_pre. unfold finish at 2. cbn [rs_cell rs_res with_pre rs_init obind].
-    rewrite app_nil_r.
-    destruct (rcn_loop off s rs_init) as [s2| | |]; cbn [obind]; try reflexivity.
-    rewrite finish_pre. reflexivity.
-  - destruct Hc as [Hc|Hc]; [discriminate|].
-    destruct s as [|d s].
-    + cbn [rcn_loop obind]. change (finish off rs_init) with (@Ok (list N) []).
-      destruct (finish off (mkR res (c0 :: cell) icr false)); cbn [obind]; try reflexivity.
-      rewrite app_nil_r. reflexivity.
-    + cbn [sep_or_nil starts_sep] in Hc. apply andb_true_iff in Hc. destruct Hc as [Ha Hd].
-      apply negb_true_iff in Ha. apply negb_true_iff in Hd.
-      cbn [rcn_loop]. rewrite step_init_sep by assumption. cbn [obind].
-      rewrite finish_eq. cbn [rs_cell rs_res].
-      unfold rcn_step at 1. cbn [rs_res rs_cell rs_icr rs_inq]. rewrite Hd.
-      unfold is_alnum in Ha. apply orb_false_iff in Ha. destruct Ha as [Ha1 Ha2]. rewrite Ha1, Ha2.
-      destruct (flush_cell (c0 :: cell) off) as [f| | |]; cbn [obind]; try reflexivity.
-      replace (mkR (res ++ f ++ [u8 d]) [] false false)
-        with (with_pre (res ++ f) (mkR [u8 d] [] false false))
-        by (unfold with_pre; cbn; rewrite <- app_assoc; reflexivity).
-      rewrite loop_pre, obind_assoc.
-      destruct (rcn_loop off s (mkR [u8 d] [] false false)) as [s2| | |]; cbn [obind]; try reflexivity.
-      rewrite finish_pre. reflexivity.
-Qed.
-
-(* ------------------------------------------------------------------ bounds on what get_row_column returns *)
-Definition sinv (s : scan_state) : Prop :=
-  s_row s <= U32MAX /\ s_pow s <= U32MAX /\
-  (if s_readrow s then s_col s = 0
-   else exists k, s_pow s = 26 ^ k /\ s_col s * 25 + 26 <= 26 * s_pow s).
-
-Lemma scan_letter_inv : forall base c s s',
-  c - base + 1 <= 26 -> sinv s -> scan_letter base c s = Ok s' -> sinv s'.
-Proof.
-  intros base c s s' Hl [Hr [Hp Hc]] H. unfold scan_letter in H.
-  assert (Hmid : exists k, (if s_readrow s then 1 else s_pow s) = 26 ^ k /\
-                 s_col s * 25 + 26 <= 26 * (if s_readrow s then 1 else s_pow s)).
-  { destruct (s_readrow s); [exists 0; rewrite Hc; cbn; lia | exact Hc]. }
-  destruct (s_readrow s) eqn:R.
-  - destruct (s_row s =? 0); [discriminate|]. cbn [obind s_pow s_col s_row s_readrow] in H.
-    unfold mul32, add32 in H.
-    destruct (_ <=? U32MAX) eqn:E1 in H; cbn [obind] in H; [|discriminate].
-    destruct (_ <=? U32MAX) eqn:E2 in H; cbn [obind] in H; [|discriminate].
-    destruct (_ <=? U32MAX) eqn:E3 in H; cbn [obind] in H; [|discriminate].
-    inversion H; subst; clear H. unfold sinv. cbn [s_row s_pow s_col s_readrow].
-    split; [exact Hr|]. split; [lia|]. exists 1. split; [reflexivity|]. lia.
-  - cbn [obind s_pow s_col s_row s_readrow] in H. unfold mul32, add32 in H.
-    destruct (_ <=? U32MAX) eqn:E1 in H; cbn [obind] in H; [|discriminate].
-    destruct (_ <=? U32MAX) eqn:E2 in H; cbn [obind] in H; [|discriminate].
-    destruct (_ <=? U32MAX) eqn:E3 in H; cbn [obind] in H; [|discriminate].
-    inversion H; subst; clear H. unfold sinv. cbn [s_row s_pow s_col s_readrow].
-    destruct Hmid as [k [Hk Hb]].
-    split; [exact Hr|]. split; [lia|]. exists (N.succ k). split.
-    + rewrite N.pow_succ_r', <- Hk. lia.
-    + nia.
-Qed.
-
-Lemma scan_char_inv : forall c s s', sinv s -> scan_char c s = Ok s' -> sinv s'.
-Proof.
-  intros c s s' Hi H. unfold scan_char in H.
-  destruct (is_digit c) eqn:D.
-  - destruct Hi as [Hr [Hp Hc]]. destruct (s_readrow s) eqn:R; [|discriminate].
-    unfold mul32, add32 in H.
-    destruct (_ <=? U32MAX) eqn:E1 in H; cbn [obind] in H; [|discriminate].
-    destruct (_ <=? U32MAX) eqn:E2 in H; cbn [obind] in H; [|discriminate].
-    destruct (_ <=? U32MAX) eqn:E3 in H; cbn [obind] in H; [|discriminate].
-    inversion H; subst; clear H. unfold sinv. cbn [s_row s_pow s_col s_readrow].
-    split; [lia|]. split; [lia|]. exact Hc.
-  - destruct (is_upper c) eqn:U.
-    + eapply scan_letter_inv; [|exact Hi|exact H]. unfold is_upper, ch_A, ch_Z in *. lia.
-    + destruct (is_lower c) eqn:L; [|discriminate].
-      eapply scan_letter_inv; [|exact Hi|exact H]. unfold is_lower, ch_a, ch_z in *. lia.
-Qed.
-
-Lemma scan_loop_inv : forall rs s s', sinv s -> scan_loop rs s = Ok s' -> sinv s'.
-Proof.
-  induction rs as [|c rs IH]; intros s s' Hi H.
-  - inversion H; subst. exact Hi.
-  - cbn [scan_loop] in H. destruct (scan_char c s) as [s1| | |] eqn:E; cbn [obind] in H; try discriminate.
-    eapply IH; [|exact H]. eapply scan_char_inv; eauto.
-Qed.
-
-Lemma pow26_le_u32 : forall k, 26 ^ k <= U32MAX -> 26 ^ k <= 308915776.
-Proof.
-  intros k H. destruct (N.le_gt_cases k 6) as [L|G].
-  - change 308915776 with (26 ^ 6). apply N.pow_le_mono_r; lia.
-  - assert (26 ^ 7 <= 26 ^ k) by (apply N.pow_le_mono_r; lia).
-    change (26 ^ 7) with 8031810176 in H0. unfold U32MAX in H. lia.
-Qed.
-
-Theorem get_row_column_bounds : forall x r c,
-  get_row_column x = Ok (r, c) -> r < U32MAX /\ c < 321272406.
-Proof.
-  intros x r c H. unfold get_row_column, get_row_and_optional_column in H.
-  destruct (scan_loop (rev x) scan_init) as [s| | |] eqn:E; cbn [obind] in H; try discriminate.
-  assert (Hi : sinv s).
-  { eapply scan_loop_inv; [|exact E]. unfold sinv, scan_init, U32MAX. cbn. lia. }
-  destruct Hi as [Hr [Hp Hc]].
-  destruct (s_row s =? 0) eqn:R0; [discriminate|]. cbn [obind snd fst] in H.
-  destruct (s_col s =? 0) eqn:C0; [discriminate|]. inversion H; subst; clear H.
-  apply N.eqb_neq in R0. apply N.eqb_neq in C0. split; [lia|].
-  destruct (s_readrow s); [congruence|]. destruct Hc as [k [Hk Hb]].
-  rewrite Hk in Hp. apply pow26_le_u32 in Hp. rewrite <- Hk in Hp. lia.
-Qed.
-
-(* ------------------------------------------------------------------ candidates that come out unchanged *)
-Lemma off_ok_bounds : forall off, off_ok off = true ->
-  (-1048576 < fst off < 1048576 /\ -16384 < snd off < 16384)%Z.
-Proof. intros [dr dc]. unfold off_ok, MAX_ROWS, MAX_COLUMNS. cbn [fst snd]. lia. Qed.
-
-Lemma add_i64_small : forall (a : N) (d : Z), a <= U32MAX -> (-1048576 < d < 1048576)%Z ->
-  add_i64 (Z.of_N a) d = Ok (Z.of_N a + d)%Z.
-Proof.
-  intros a d Ha Hd. unfold add_i64, I64MIN, I64MAX, U32MAX in *.
-  destruct ((_ <=? _) && (_ <=? _))%Z eqn:E; [reflexivity|]. lia.
-Qed.
-
-Lemma as_u32_small : forall z, (0 <= z < 4294967296)%Z -> as_u32 z = Z.to_N z.
-Proof. intros z H. unfold as_u32. rewrite Z.mod_small by lia. reflexivity. Qed.
-
-Lemma flush_inert : forall cell off,
-  cell_class cell = None -> off_ok off = true -> Forall (fun c => c < 128) cell ->
-  flush_cell cell off = Ok cell.
-Proof.
-  intros cell off Hc Ho Ha. unfold flush_cell, offset_cell_name. rewrite (map_u8_ascii Ha).
-  unfold cell_class in Hc. destruct (get_row_column cell) as [[r c]|e| |] eqn:G; try discriminate.
-  - cbn [snd] in Hc. destruct (c <? LOOKALIKE_LIMIT) eqn:L; [discriminate|].
-    apply N.ltb_ge in L. unfold LOOKALIKE_LIMIT in L.
-    destruct (get_row_column_bounds _ G) as [Hr Hcb].
-    destruct (off_ok_bounds _ Ho) as [Hdr Hdc].
-    cbn [obind fst snd].
-    rewrite add_i64_small by (unfold U32MAX in *; lia). cbn [obind].
-    rewrite add_i64_small by (unfold U32MAX in *; lia). cbn [obind].
-    unfold coordinate_to_name. cbn [snd fst].
-    rewrite column_number_to_name_overflow; [reflexivity|].
-    rewrite as_u32_small by lia. lia.
+  intros seen c H. destruct c as [p|p f|g|p si own]; cbn [encode_cell fst snd cell_step seen_after spec_value].
   - reflexivity.
-Qed.
-
-(* ------------------------------------------------------------------ texts that come out unchanged *)
-Lemma cell_class_nil : cell_class [] = None.
-Proof. reflexivity. Qed.
-
-Theorem inert_loop : forall off, off_ok off = true -> forall u st,
-  text_class_from u (pst st) = None ->
-  (rs_inq st = true -> rs_cell st = []) ->
-  Forall (fun c => c < 128) (rs_cell st) ->
-  (do st' <- rcn_loop off u st; finish off st') = Ok (rs_res st ++ rs_cell st ++ u).
-Proof.
-  intros off Ho. induction u as [|c u IH]; intros st Hk Hq Ha.
-  - cbn [rcn_loop obind]. rewrite finish_eq. unfold pst in Hk. cbn [text_class_from] in Hk.
-    destruct (rs_inq st); [discriminate|].
-    rewrite flush_inert by assumption. cbn [obind]. rewrite app_nil_r. reflexivity.
-  - cbn [text_class_from] in Hk. destruct (char_class (pst st) c) eqn:CC; [discriminate|].
-    unfold char_class in CC. destruct (128 <=? c) eqn:A; [discriminate|]. apply N.leb_gt in A.
-    unfold pst in CC, Hk. cbn [rcn_loop].
-    unfold rcn_step. unfold padv in Hk.
-    destruct (if c =? ch_dquote then negb (rs_inq st) else rs_inq st) eqn:Q.
-    + (* inside a string literal (or opening it) *)
-      cbn [obind].
-      assert (Hcell : rs_cell st = []).
-      { destruct (c =? ch_dquote) eqn:DQ.
-        - cbn [andb] in CC. destruct (rs_cell st); [reflexivity|discriminate].
-        - apply Hq. exact Q. }
-      rewrite IH; unfold pst; cbn [rs_res rs_cell rs_icr rs_inq].
-      * rewrite Hcell, u8_ascii by exact A. cbn [app]. rewrite <- app_assoc. reflexivity.
-      * exact Hk.
-      * intros _. exact Hcell.
-      * exact Ha.
-    + destruct (is_alpha c) eqn:AL.
-      * destruct (rs_icr st) eqn:ICR; cbn [obind].
-        -- rewrite IH; unfold pst; cbn [rs_res rs_cell rs_icr rs_inq].
-           ++ rewrite (map_u8_ascii Ha). rewrite <- !app_assoc. reflexivity.
-           ++ exact Hk.
-           ++ discriminate.
-           ++ constructor; [exact A|constructor].
-        -- rewrite IH; unfold pst; cbn [rs_res rs_cell rs_icr rs_inq].
-           ++ rewrite <- !app_assoc. reflexivity.
-           ++ exact Hk.
-           ++ discriminate.
-           ++ apply Forall_app. split; [exact Ha|]. constructor; [exact A|constructor].
-      * destruct (is_digit c) eqn:DG; cbn [obind].
-        -- rewrite IH; unfold pst; cbn [rs_res rs_cell rs_icr rs_inq].
-           ++ rewrite <- !app_assoc. reflexivity.
-           ++ exact Hk.
-           ++ discriminate.
-           ++ apply Forall_app. split; [exact Ha|]. constructor; [exact A|constructor].
-        -- assert (AN : is_alnum c = false) by (unfold is_alnum; rewrite AL, DG; reflexivity).
-           rewrite AN in CC.
-           rewrite flush_inert by assumption. cbn [obind].
-           rewrite IH; unfold pst; cbn [rs_res rs_cell rs_icr rs_inq].
-           ++ rewrite u8_ascii by exact A. cbn [app]. rewrite <- !app_assoc. reflexivity.
-           ++ exact Hk.
-           ++ discriminate.
-           ++ constructor.
-Qed.
-
-Corollary inert_text : forall off u, off_ok off = true -> text_class u = None ->
-  rcn_bytes u off = Ok u.
-Proof.
-  intros off u Ho Hk. rewrite rcn_bytes_eq.
-  rewrite (@inert_loop off Ho u rs_init); [reflexivity|exact Hk|discriminate|constructor].
-Qed.
-
-(* a text of class None is ASCII and leaves the scanner outside a string *)
-Lemma text_class_ascii : forall u p, text_class_from u p = None -> Forall (fun c => c < 128) u.
-Proof.
-  induction u as [|c u IH]; intros p H; [constructor|].
-  cbn [text_class_from] in H. destruct (char_class p c) eqn:CC; [discriminate|].
-  constructor; [|eapply IH; exact H].
-  unfold char_class in CC. destruct (128 <=? c) eqn:A; [discriminate|]. apply N.leb_gt in A. exact A.
-Qed.
-
-Lemma text_class_unquoted : forall u p, text_class_from u p = None ->
-  snd (fold_left padv u p) = false.
-Proof.
-  induction u as [|c u IH]; intros p H.
-  - cbn [text_class_from fold_left] in *. destruct p as [[cell icr] inq]. cbn [snd].
-    destruct inq; [discriminate|reflexivity].
-  - cbn [text_class_from fold_left] in *. destruct (char_class p c); [discriminate|].
-    apply IH. exact H.
-Qed.
-
-(* ------------------------------------------------------------------ a relative reference is moved *)
-Lemma loop_letters : forall off ls res cell, Forall (fun x => is_upper x = true) ls ->
-  rcn_loop off ls (mkR res cell false false) = Ok (mkR res (cell ++ ls) false false).
-Proof.
-  induction ls as [|c ls IH]; intros res cell H.
-  - cbn [rcn_loop]. rewrite app_nil_r. reflexivity.
-  - inversion H as [|? ? Hc Hl]; subst. cbn [rcn_loop]. unfold rcn_step.
-    cbn [rs_res rs_cell rs_icr rs_inq].
-    rewrite (alnum_not_dquote _ (alpha_alnum _ (upper_alpha _ Hc))), (upper_alpha _ Hc).
-    cbn [obind]. rewrite IH by exact Hl. rewrite <- app_assoc. reflexivity.
-Qed.
-
-Lemma loop_digits : forall off ds res cell icr, Forall (fun x => is_digit x = true) ds ->
-  rcn_loop off ds (mkR res cell icr false) =
-  Ok (mkR res (cell ++ ds) (match ds with [] => icr | _ => true end) false).
-Proof.
-  induction ds as [|c ds IH]; intros res cell icr H.
-  - cbn [rcn_loop]. rewrite app_nil_r. reflexivity.
-  - inversion H as [|? ? Hc Hl]; subst. cbn [rcn_loop]. unfold rcn_step.
-    cbn [rs_res rs_cell rs_icr rs_inq].
-    rewrite (alnum_not_dquote _ (digit_alnum _ Hc)), (digit_not_alpha _ Hc), Hc.
-    cbn [obind]. rewrite IH by exact Hl. rewrite <- app_assoc.
-    destruct ds; reflexivity.
-Qed.
-
-Lemma upper_ascii : forall l, Forall (fun x => is_upper x = true) l -> Forall (fun c => c < 128) l.
-Proof.
-  intros l H. eapply Forall_impl; [|exact H]. intros c Hc.
-  apply alnum_ascii, alpha_alnum, upper_alpha, Hc.
-Qed.
-Lemma digits_ascii : forall l, Forall (fun x => is_digit x = true) l -> Forall (fun c => c < 128) l.
-Proof.
-  intros l H. eapply Forall_impl; [|exact H]. intros c Hc. apply alnum_ascii, digit_alnum, Hc.
-Qed.
-Lemma a1_name_ascii : forall r c, Forall (fun x => x < 128) (a1_name r c).
-Proof.
-  intros r c. unfold a1_name. apply Forall_app. split.
-  - apply upper_ascii, letters_upper.
-  - apply digits_ascii, dec_digits.
-Qed.
-
-Definition zmove (x : N) (d : Z) : N := Z.to_N (Z.of_N x + d).
-
-Lemma flush_a1 : forall r c off,
-  c < MAX_COLUMNS -> r < MAX_ROWS ->
-  (0 <= Z.of_N r + fst off < Z.of_N MAX_ROWS)%Z ->
-  (0 <= Z.of_N c + snd off < Z.of_N MAX_COLUMNS)%Z ->
-  flush_cell (a1_name r c) off = Ok (a1_name (zmove r (fst off)) (zmove c (snd off))).
-Proof.
-  intros r c [dr dc] Hc Hr Hr' Hc'. unfold MAX_COLUMNS, MAX_ROWS in *. cbn [fst snd] in *.
-  unfold flush_cell, offset_cell_name. rewrite (map_u8_ascii (a1_name_ascii r c)).
-  rewrite get_row_column_a1_name by (unfold ROW_TEXT_LIMIT, COL_TEXT_LIMIT; lia).
-  cbn [obind fst snd].
-  rewrite add_i64_small by (unfold U32MAX; lia). cbn [obind].
-  unfold add_i64, I64MIN, I64MAX.
-  destruct ((_ <=? _) && (_ <=? _))%Z eqn:E; [|lia]. cbn [obind].
-  rewrite !as_u32_small by lia.
-  unfold zmove. rewrite coordinate_to_name_spec by lia. reflexivity.
-Qed.
-
-Lemma a1_name_nonempty_digits : forall r, exists d ds, dec (r + 1) = d :: ds.
-Proof.
-  intros r. pose proof (dec_nonempty (r + 1)) as H. destruct (dec (r + 1)) as [|d ds]; [congruence|].
-  eauto.
-Qed.
-
-Lemma loop_a1 : forall off r c res,
-  rcn_loop off (a1_name r c) (mkR res [] false false) = Ok (mkR res (a1_name r c) true false).
-Proof.
-  intros off r c res. unfold a1_name. rewrite rcn_loop_app.
-  rewrite loop_letters by apply letters_upper. cbn [obind app].
-  rewrite loop_digits by apply dec_digits.
-  destruct (a1_name_nonempty_digits r) as [d [ds E]]. rewrite E. reflexivity.
-Qed.
-
-Lemma a1_name_nonempty : forall r c, a1_name r c <> [].
-Proof.
-  intros r c H. unfold a1_name in H. apply app_eq_nil in H. destruct H as [H _].
-  exact (letters_nonempty _ H).
-Qed.
-
-Theorem rel_ref_moves : forall r c off res,
-  c < MAX_COLUMNS -> r < MAX_ROWS ->
-  (0 <= Z.of_N r + fst off < Z.of_N MAX_ROWS)%Z ->
-  (0 <= Z.of_N c + snd off < Z.of_N MAX_COLUMNS)%Z ->
-  (do st <- rcn_loop off (a1_name r c) (mkR res [] false false); finish off st) =
-  Ok (res ++ a1_name (zmove r (fst off)) (zmove c (snd off))).
-Proof.
-  intros r c off res Hc Hr Hr' Hc'. rewrite loop_a1. cbn [obind].
-  rewrite finish_eq. cbn [rs_cell rs_res]. rewrite flush_a1 by assumption. reflexivity.
-Qed.
-
-(* ------------------------------------------------------------------ tokens *)
-Lemma render_rel_ref : forall c r, render (TRef false c false r) = a1_name r c.
-Proof. reflexivity. Qed.
-
-Lemma comp_in_range_rel : forall x d lim, comp_in_range false x d lim = true ->
-  x < lim /\ (0 <= Z.of_N x + d < Z.of_N lim)%Z.
-Proof. intros x d lim. unfold comp_in_range. cbn [orb]. lia. Qed.
-Lemma comp_in_range_lt : forall a x d lim, comp_in_range a x d lim = true -> x < lim.
-Proof. intros a x d lim. unfold comp_in_range. lia. Qed.
-
-Theorem token_correct : forall off t,
-  off_ok off = true -> tok_in_range off t = true -> known_token t = None ->
-  rcn_bytes (render t) off = Ok (render (translate off t)).
-Proof.
-  intros off t Ho Hr Hk.
-  assert (Inert : forall t', translate off t' = t' -> text_class (render t') = None ->
-                  rcn_bytes (render t') off = Ok (render (translate off t'))).
-  { intros t' E K. rewrite E. apply inert_text; assumption. }
-  destruct t as [ca c ra r|q n|n|n|ip fp ex|s|sc|k]; try (apply Inert; [reflexivity|exact Hk]).
-  destruct ca, ra; cbn [known_token xorb] in Hk; try discriminate.
-  - apply Inert; [reflexivity|exact Hk].
-  - cbn [tok_in_range] in Hr. apply andb_true_iff in Hr. destruct Hr as [H1 H2].
-    apply comp_in_range_rel in H1. apply comp_in_range_rel in H2.
-    rewrite render_rel_ref, rcn_bytes_eq. unfold rs_init.
-    rewrite rel_ref_moves by tauto. reflexivity.
-Qed.
-
-Lemma token_end_unquoted : forall off t st',
-  known_token t = None ->
-  rcn_loop off (render t) rs_init = Ok st' -> rs_inq st' = false.
-Proof.
-  intros off t st' Hk H.
-  assert (Inert : text_class (render t) = None -> rs_inq st' = false).
-  { intros K. pose proof (loop_pst _ _ _ H) as P.
-    pose proof (text_class_unquoted _ _ K) as Q. unfold pst, rs_init in P. cbn [rs_cell rs_icr rs_inq] in P.
-    unfold p_init in Q. rewrite <- P in Q. exact Q. }
-  destruct t as [ca c ra r|q n|n|n|ip fp ex|s|sc|k]; try (apply Inert; exact Hk).
-  destruct ca, ra; cbn [known_token xorb] in Hk; try discriminate.
-  - apply Inert; exact Hk.
-  - rewrite render_rel_ref in H. unfold rs_init in H. rewrite loop_a1 in H. inversion H; subst. reflexivity.
-Qed.
-
-Lemma starts_sep_app : forall u v, starts_sep u = true -> sep_or_nil (u ++ v) = true.
-Proof. intros [|c u] v H; [discriminate|]. exact H. Qed.
-
-Lemma rcn_bytes_nil : forall off, rcn_bytes [] off = Ok [].
-Proof. reflexivity. Qed.
-
-(* a token is fine at an offset when the scanner rewrites its text into the text of the
-   translated token and ends outside a string literal *)
-Definition tok_fine (off : Z * Z) (t : token) : Prop :=
-  rcn_bytes (render t) off = Ok (render (translate off t)) /\
-  (forall st', rcn_loop off (render t) rs_init = Ok st' -> rs_inq st' = false).
-
-Theorem assemble : forall off ts,
-  Forall (tok_fine off) ts -> adjacent_ok ts = true ->
-  rcn_bytes (render_all ts) off = Ok (render_all (map (translate off) ts)).
-Proof.
-  intros off ts. induction ts as [|t ts IH]; intros Hf Ha.
   - reflexivity.
-  - inversion Hf as [|? ? [Ht Hq] Hf2]; subst.
-    assert (Ha2 : adjacent_ok ts = true).
-    { destruct ts as [|b rest]; [reflexivity|]. cbn [adjacent_ok] in Ha.
-      apply andb_true_iff in Ha. tauto. }
-    unfold render_all in *. cbn [map concat].
-    rewrite rcn_split.
-    + rewrite Ht. cbn [obind]. rewrite (IH Hf2 Ha2). reflexivity.
-    + intros st' Hst. split; [apply Hq; exact Hst|].
-      destruct (rs_cell st') eqn:Ec; [left; reflexivity|right].
-      assert (He : ends_alnum (render t) = true).
-      { pose proof (loop_pst _ _ _ Hst) as P. unfold pst, rs_init in P. cbn [rs_cell rs_icr rs_inq] in P.
-        apply (@pending_ends_alnum (render t) ([], false, false)); [reflexivity| |].
-        - rewrite <- P. cbn [snd]. apply Hq; exact Hst.
-        - rewrite <- P. cbn [fst]. congruence. }
-      destruct ts as [|b rest]; [reflexivity|].
-      cbn [adjacent_ok] in Ha. rewrite He in Ha. apply andb_true_iff in Ha. destruct Ha as [Hs _].
-      cbn [map concat]. apply starts_sep_app. exact Hs.
+  - cbn [cell_okb] in H. rewrite (ref_text_dimension g H). reflexivity.
+  - cbn [cell_okb] in H. rewrite fm_get_enc. destruct (find_group seen si) as [g|]; [|reflexivity].
+    cbn [enc_group snd]. change (contains (g_start g, g_end g) p) with (in_box (g_start g) (g_end g) p).
+    destruct (in_box (g_start g) (g_end g) p); [|reflexivity].
+    unfold member_okb in H. apply andb_prop in H as [H Hk]. apply andb_prop in H as [Hwf Hr].
+    destruct (known_at (member_offset g p) (g_tokens g)) eqn:K; [discriminate Hk|].
+    change (Z.of_N (fst p) - Z.of_N (fst (g_master g)), Z.of_N (snd p) - Z.of_N (snd (g_master g)))%Z
+      with (member_offset g p).
+    rewrite (translate_correct_at (g_tokens g) (member_offset g p) Hwf Hr K). reflexivity.
 Qed.
 
-Lemma known_free_fine : forall off ts,
-  off_ok off = true -> forallb (tok_in_range off) ts = true -> known_C15 ts = None ->
-  Forall (tok_fine off) ts.
+Lemma run_cells_spec : forall cs seen, sheet_okb is_alnum seen cs = true ->
+  run_cells is_alnum (map enc_group seen) (map encode_cell cs) = Ok (spec_cells seen cs).
 Proof.
-  intros off ts Ho. induction ts as [|t ts IH]; intros Hr Hk; [constructor|].
-  cbn [forallb] in Hr. apply andb_true_iff in Hr. destruct Hr as [Hr1 Hr2].
-  cbn [known_C15] in Hk. destruct (known_token t) eqn:Kt; [discriminate|].
-  constructor; [|apply IH; assumption]. split.
-  - apply token_correct; assumption.
-  - intros st' Hst. eapply token_end_unquoted; eauto.
+  induction cs as [|c cs IH]; intros seen H; [reflexivity|].
+  cbn [sheet_okb] in H. apply andb_prop in H as [Hc Hs].
+  cbn [map run_cells spec_cells]. destruct (encode_cell c) as [pos k] eqn:E.
+  pose proof (cell_step_spec seen c Hc) as S. rewrite E in S. cbn [fst snd] in S. rewrite S.
+  cbn [obind fst snd]. rewrite (IH _ Hs). reflexivity.
 Qed.
 
-Theorem translate_bytes : forall off ts,
-  off_ok off = true -> forallb (tok_in_range off) ts = true ->
-  adjacent_ok ts = true -> known_C15 ts = None ->
-  rcn_bytes (render_all ts) off = Ok (render_all (map (translate off) ts)).
-Proof.
-  intros off ts Ho Hr Ha Hk. apply assemble; [|exact Ha]. apply known_free_fine; assumption.
-Qed.
-
-(* ------------------------------------------------------------------ the result is ASCII, hence valid UTF-8 *)
-Lemma utf8_valid_ascii : forall l, Forall (fun c => c < 128) l -> utf8_valid l = true.
-Proof.
-  intros l H. unfold utf8_valid.
-  assert (G : forall f, (length l <= f)%nat -> utf8_valid_fuel f l = true).
-  { induction H as [|c l Hc Hl IH]; intros f Hf.
-    - destruct f; reflexivity.
-    - destruct f; [cbn in Hf; lia|]. cbn [utf8_valid_fuel].
-      apply N.ltb_lt in Hc. rewrite Hc. apply IH. cbn in Hf. lia. }
-  apply G. lia.
-Qed.
-
-Lemma a1_ref_ascii : forall r c rr cr, Forall (fun x => x < 128) (a1_ref r c rr cr).
-Proof.
-  intros r c rr cr. unfold a1_ref. repeat (apply Forall_app; split).
-  - destruct cr; [constructor|]. constructor; [unfold ch_dollar; lia|constructor].
-  - apply upper_ascii, letters_upper.
-  - destruct rr; [constructor|]. constructor; [unfold ch_dollar; lia|constructor].
-  - apply digits_ascii, dec_digits.
-Qed.
-
-Lemma translated_ascii : forall off ts, known_C15 ts = None ->
-  Forall (fun c => c < 128) (render_all (map (translate off) ts)).
-Proof.
-  intros off. induction ts as [|t ts IH]; intros Hk; [constructor|].
-  cbn [known_C15] in Hk. destruct (known_token t) eqn:Kt; [discriminate|].
-  unfold render_all in *. cbn [map concat]. apply Forall_app. split; [|apply IH; exact Hk].
-  destruct t as [ca c ra r|q n|n|n|ip fp ex|s|sc|k];
-    try (cbn [translate]; eapply text_class_ascii; exact Kt).
-  cbn [translate render]. apply a1_ref_ascii.
-Qed.
-
-(* ------------------------------------------------------------------ MAIN THEOREM 1 *)
-Theorem translate_correct : forall ts off,
-  wf_formula ts = true -> in_range ts off -> known_C15 ts = None ->
-  replace_cell_names (render_all ts) off = Ok (render_all (map (translate off) ts)).
-Proof.
-  intros ts off Hwf Hr Hk. unfold wf_formula in Hwf. apply andb_true_iff in Hwf.
-  destruct Hwf as [_ Ha]. unfold in_range, in_rangeb in Hr. apply andb_true_iff in Hr.
-  destruct Hr as [Ho Hr]. unfold replace_cell_names.
-  rewrite (@translate_bytes off ts Ho Hr Ha Hk). cbn [obind].
-  rewrite utf8_valid_ascii by (apply translated_ascii; exact Hk). reflexivity.
-Qed.
-
-(* ------------------------------------------------------------------ vertical groups: mixed references are fine *)
-Lemma render_colabs_ref : forall c r, render (TRef true c false r) = ch_dollar :: a1_name r c.
-Proof. reflexivity. Qed.
-
-Lemma zmove_0 : forall x, zmove x 0 = x.
-Proof. intros x. unfold zmove. rewrite Z.add_0_r. apply N2Z.id. Qed.
-
-Lemma colabs_ref_fine : forall dr c r,
-  tok_in_range (dr, 0%Z) (TRef true c false r) = true -> tok_fine (dr, 0%Z) (TRef true c false r).
-Proof.
-  intros dr c r Hr. cbn [tok_in_range fst snd] in Hr. apply andb_true_iff in Hr. destruct Hr as [H1 H2].
-  apply comp_in_range_lt in H1. apply comp_in_range_rel in H2.
-  assert (Hstep : rcn_step (dr, 0%Z) rs_init ch_dollar = Ok (mkR [ch_dollar] [] false false))
-    by reflexivity.
-  split.
-  - rewrite render_colabs_ref, rcn_bytes_eq. cbn [rcn_loop]. rewrite Hstep. cbn [obind].
-    rewrite rel_ref_moves; cbn [fst snd]; try tauto; [|unfold MAX_COLUMNS in *; lia].
-    rewrite zmove_0. cbn [translate render move fst snd]. reflexivity.
-  - intros st' H. rewrite render_colabs_ref in H. cbn [rcn_loop] in H. rewrite Hstep in H.
-    cbn [obind] in H. rewrite loop_a1 in H. inversion H; subst. reflexivity.
-Qed.
-
-Lemma inert_fine : forall off t, off_ok off = true ->
-  translate off t = t -> text_class (render t) = None -> tok_fine off t.
-Proof.
-  intros off t Ho E K. split.
-  - rewrite E. apply inert_text; assumption.
-  - intros st' H. pose proof (loop_pst _ _ _ H) as P.
-    pose proof (text_class_unquoted _ _ K) as Q. unfold pst, rs_init in P.
-    cbn [rs_cell rs_icr rs_inq] in P. unfold p_init in Q. rewrite <- P in Q. exact Q.
-Qed.
-
-Lemma known_free_fine_v : forall dr ts,
-  off_ok (dr, 0%Z) = true -> forallb (tok_in_range (dr, 0%Z)) ts = true -> known_C15_v ts = None ->
-  Forall (tok_fine (dr, 0%Z)) ts.
-Proof.
-  intros dr ts Ho. induction ts as [|t ts IH]; intros Hr Hk; [constructor|].
-  cbn [forallb] in Hr. apply andb_true_iff in Hr. destruct Hr as [Hr1 Hr2].
-  cbn [known_C15_v] in Hk. destruct (known_token_v t) eqn:Kt; [discriminate|].
-  constructor; [|apply IH; assumption].
-  assert (Gen : known_token t = None -> tok_fine (dr, 0%Z) t).
-  { intros K. split; [apply token_correct; assumption|].
-    intros st' Hst. eapply token_end_unquoted; eauto. }
-  destruct t as [ca c ra r|q n|n|n|ip fp ex|s|sc|k]; try (apply Gen; exact Kt).
-  destruct ca, ra; cbn [known_token_v] in Kt; try (apply Gen; exact Kt).
-  - apply colabs_ref_fine. exact Hr1.
-  - apply inert_fine; [exact Ho| |exact Kt].
-    cbn [translate move fst snd]. change (Z.to_N (Z.of_N c + 0)) with (zmove c 0).
-    rewrite zmove_0. reflexivity.
-Qed.
-
-Lemma translated_ascii_v : forall off ts, known_C15_v ts = None ->
-  Forall (fun c => c < 128) (render_all (map (translate off) ts)).
-Proof.
-  intros off. induction ts as [|t ts IH]; intros Hk; [constructor|].
-  cbn [known_C15_v] in Hk. destruct (known_token_v t) eqn:Kt; [discriminate|].
-  unfold render_all in *. cbn [map concat]. apply Forall_app. split; [|apply IH; exact Hk].
-  destruct t as [ca c ra r|q n|n|n|ip fp ex|s|sc|k];
-    try (cbn [translate]; eapply text_class_ascii; exact Kt).
-  cbn [translate render]. apply a1_ref_ascii.
-Qed.
-
-(* MAIN THEOREM 1b: in a vertical group (column offset 0) mixed references are also right *)
-Theorem translate_correct_vertical : forall ts dr,
-  wf_formula ts = true -> in_range ts (dr, 0%Z) -> known_C15_v ts = None ->
-  replace_cell_names (render_all ts) (dr, 0%Z) = Ok (render_all (map (translate (dr, 0%Z)) ts)).
-Proof.
-  intros ts dr Hwf Hr Hk. unfold wf_formula in Hwf. apply andb_true_iff in Hwf.
-  destruct Hwf as [_ Ha]. unfold in_range, in_rangeb in Hr. apply andb_true_iff in Hr.
-  destruct Hr as [Ho Hr]. unfold replace_cell_names.
-  rewrite assemble; [|apply known_free_fine_v; assumption|exact Ha]. cbn [obind].
-  rewrite utf8_valid_ascii by (apply translated_ascii_v; exact Hk). reflexivity.
-Qed.
-
-(* ------------------------------------------------------------------ non-vacuity and known classes (witnesses) *)
-(* characters used by the witnesses *)
-Definition w_str (l : list N) := l.
-Definition t_A1 := TRef false 0 false 0.
-Definition t_lp := TSym 40.   Definition t_rp := TSym 41.
-Definition t_plus := TSym 43. Definition t_comma := TSym 44. Definition t_colon := TSym 58.
-Definition t_amp := TSym 38.  Definition t_star := TSym 42.
-Definition n_SUM := [83;85;77].
-Definition n_LOG10 := [76;79;71;49;48].
-Definition n_Sheet1 := [83;104;101;101;116;49].
-Definition n_Revenue2024 := [82;101;118;101;110;117;101;50;48;50;52].
-Definition n_Q1 := [81;49].
-Definition n_rate := [114;97;116;101].
-
-(* =SUM($B$2:C7,Sheet1!D4)+LOG(A1)*1.5E-3&"A1 ""x"""+rate : every kind of token, no known class *)
-Definition ex_tokens : list token :=
-  [ TFunc n_SUM; TRef true 1 true 1; t_colon; TRef false 2 false 6; t_comma;
-    TSheet false n_Sheet1; TRef false 3 false 3; t_rp; t_plus;
-    TFunc [76;79;71]; t_A1; t_rp; t_star; TNum [49] (Some [53]) (Some (true, [51]));
-    t_amp; TStr [65;49;32;34;120;34]; t_plus; TName n_rate; t_plus; TErr 3 ].
-
-Example translate_correct_nonvacuous :
-  wf_formula ex_tokens = true /\ in_range ex_tokens (5, 2)%Z /\ known_C15 ex_tokens = None /\
-  render_all (map (translate (5, 2)%Z) ex_tokens) <> render_all ex_tokens.
-Proof. repeat split; try (vm_compute; reflexivity). vm_compute. discriminate. Qed.
-
-Example translate_correct_vertical_nonvacuous :
-  let ts := [TRef true 2 false 0; t_plus; TRef false 1 true 3; t_plus; TRef true 0 true 0] in
-  wf_formula ts = true /\ in_range ts (7, 0)%Z /\ known_C15_v ts = None /\
-  known_C15 ts = Some CL_MIXED /\
-  render_all (map (translate (7, 0)%Z) ts) <> render_all ts.
-Proof. repeat split; try (vm_compute; reflexivity). vm_compute. discriminate. Qed.
-
-(* class 1: $A1 in a horizontal group moves its column; A$1 does not move at all *)
-Theorem refuted_mixed :
-  exists ts off, wf_formula ts = true /\ in_range ts off /\ known_C15 ts = Some CL_MIXED /\
-    replace_cell_names (render_all ts) off <> Ok (render_all (map (translate off) ts)).
-Proof.
-  exists [TRef true 0 false 0], (0, 1)%Z. repeat split; try (vm_compute; reflexivity).
-  vm_compute. discriminate.
-Qed.
-Theorem refuted_mixed_row_abs :
-  exists ts off, wf_formula ts = true /\ in_range ts off /\ known_C15 ts = Some CL_MIXED /\
-    replace_cell_names (render_all ts) off <> Ok (render_all (map (translate off) ts)).
-Proof.
-  exists [TRef false 0 true 0], (0, 1)%Z. repeat split; try (vm_compute; reflexivity).
-  vm_compute. discriminate.
-Qed.
-(* what the model returns on them *)
-Example mixed_outputs :
-  replace_cell_names [36;65;49] (0, 1)%Z = Ok [36;66;49] /\          (* $A1 -> $B1 *)
-  replace_cell_names [65;36;49] (0, 1)%Z = Ok [65;36;49].            (* A$1 -> A$1 (should be B$1) *)
-Proof. split; vm_compute; reflexivity. Qed.
-
-(* class 2: LOG10(A1) one row down becomes LOG11(A2); 'Q1'!A1 becomes 'Q2'!A2 *)
-Theorem refuted_lookalike :
-  exists ts off, wf_formula ts = true /\ in_range ts off /\ known_C15 ts = Some CL_LOOKALIKE /\
-    replace_cell_names (render_all ts) off <> Ok (render_all (map (translate off) ts)).
-Proof.
-  exists [TFunc n_LOG10; t_A1; t_rp], (1, 0)%Z. repeat split; try (vm_compute; reflexivity).
-  vm_compute. discriminate.
-Qed.
-Theorem refuted_lookalike_sheet :
-  exists ts off, wf_formula ts = true /\ in_range ts off /\ known_C15 ts = Some CL_LOOKALIKE /\
-    replace_cell_names (render_all ts) off <> Ok (render_all (map (translate off) ts)).
-Proof.
-  exists [TSheet true n_Q1; t_A1], (1, 0)%Z. repeat split; try (vm_compute; reflexivity).
-  vm_compute. discriminate.
-Qed.
-Example lookalike_outputs :
-  replace_cell_names (render_all [TFunc n_LOG10; t_A1; t_rp]) (1, 0)%Z
-    = Ok [76;79;71;49;49;40;65;50;41] /\                               (* LOG11(A2) *)
-  replace_cell_names (render_all [TSheet true n_Q1; t_A1]) (1, 0)%Z
-    = Ok [39;81;50;39;33;65;50].                                       (* 'Q2'!A2 *)
-Proof. split; vm_compute; reflexivity. Qed.
-
-(* class 3: a non-ASCII character anywhere makes the whole call fail (or yields other text) *)
-Theorem refuted_nonascii :
-  exists ts off, wf_formula ts = true /\ in_range ts off /\ known_C15 ts = Some CL_NONASCII /\
-    replace_cell_names (render_all ts) off = Err E_UTF8.
-Proof.
-  exists [TStr [233]; t_amp; t_A1], (1, 0)%Z. repeat split; vm_compute; reflexivity.
-Qed.
-Example nonascii_garbage :       (* U+0141 U+0131 come out as the ASCII text A1 *)
-  replace_cell_names [321; 305] (0, 0)%Z = Ok [65; 49].
-Proof. vm_compute. reflexivity. Qed.
-
-(* class 4: a double quote inside a quoted sheet name flips the string mode *)
-Theorem refuted_quote :
-  exists ts off, wf_formula ts = true /\ in_range ts off /\ known_C15 ts = Some CL_QUOTE /\
-    replace_cell_names (render_all ts) off <> Ok (render_all (map (translate off) ts)).
-Proof.
-  exists [TSheet true [97;34;98]; t_A1; t_plus; TRef false 1 false 1], (1, 0)%Z.
-  repeat split; try (vm_compute; reflexivity). vm_compute. discriminate.
-Qed.
-
-(* class 5: seven letters followed by a digit, or ten digits, overflow u32 in get_row_column *)
-Theorem refuted_overflow :
-  exists ts off, wf_formula ts = true /\ in_range ts off /\ known_C15 ts = Some CL_OVERFLOW /\
-    replace_cell_names (render_all ts) off = Panic.
-Proof.
-  exists [TSheet false n_Revenue2024; t_A1], (1, 0)%Z. repeat split; vm_compute; reflexivity.
-Qed.
-Theorem refuted_overflow_number :
-  exists ts off, wf_formula ts = true /\ in_range ts off /\ known_C15 ts = Some CL_OVERFLOW /\
-    replace_cell_names (render_all ts) off = Panic.
-Proof.
-  exists [t_A1; t_star; TNum [49;48;48;48;48;48;48;48;48;48] None None], (1, 0)%Z.
-  repeat split; vm_compute; reflexivity.
-Qed.
-
-(* outside [in_range]: what happens at the sheet edges *)
-Example edge_behaviour :
-  replace_cell_names [65;49] (-1, 0)%Z = Panic /\                         (* A1 one row up *)
-  replace_cell_names [65;49] (0, -1)%Z = Ok [65;49] /\                    (* A1 one column left: unchanged *)
-  replace_cell_names [88;70;68;49] (0, 1)%Z = Ok [88;70;68;49] /\         (* XFD1 one column right: unchanged *)
-  replace_cell_names [65;49;48;52;56;53;55;54] (1, 0)%Z
-    = Ok [65;49;48;52;56;53;55;55].                                       (* A1048576 -> A1048577 *)
-Proof. repeat split; vm_compute; reflexivity. Qed.
-
-(* sanity of the class definitions: ordinary identifiers are not flagged *)
-Example unflagged_identifiers :
-  known_C15 [TSheet false n_Sheet1; t_A1] = None /\
-  known_C15 [TFunc [65;84;65;78;50]; t_A1; t_rp] = Some CL_LOOKALIKE /\     (* ATAN2( : column 31135 *)
-  known_C15 [TFunc [68;65;89;83;51;54;48]; t_A1; t_rp] = None /\            (* DAYS360( *)
-  known_C15 [TRef true 16383 true 1048575] = None.                          (* $XFD$1048576 *)
-Proof. repeat split; vm_compute; reflexivity. Qed.
-
-(* ================================================================== groups *)
-(* ------------------------------------------------------------------ the offset map *)
-Lemma pos_eqb_eq : forall a b, pos_eqb a b = true <-> a = b.
-Proof.
-  intros [a1 a2] [b1 b2]. unfold pos_eqb. cbn [fst snd]. split.
-  - intros H. apply andb_true_iff in H. destruct H as [H1 H2].
-    apply N.eqb_eq in H1. apply N.eqb_eq in H2. subst. reflexivity.
-  - intros H. inversion H; subst. rewrite !N.eqb_refl. reflexivity.
-Qed.
-
-Lemma omap_get_map_in : forall (kf : N -> N * N) (vf : N -> Z * Z) l i p,
-  In i l -> kf i = p -> (forall j, In j l -> kf j = p -> j = i) ->
-  omap_get (map (fun i => (kf i, vf i)) l) p = Some (vf i).
-Proof.
-  induction l as [|x l IH]; intros i p Hin Hk Hu; [destruct Hin|].
-  cbn [map omap_get]. destruct (pos_eqb (kf x) p) eqn:E.
-  - apply pos_eqb_eq in E. rewrite (Hu x (or_introl eq_refl) E). reflexivity.
-  - destruct Hin as [Hx|Hin].
-    + subst x. rewrite Hk in E. assert (pos_eqb p p = true) by (apply pos_eqb_eq; reflexivity). congruence.
-    + apply IH; auto. intros j Hj. apply Hu. right. exact Hj.
-Qed.
-
-Lemma omap_get_map_notin : forall (kf : N -> N * N) (vf : N -> Z * Z) l p,
-  (forall j, In j l -> kf j <> p) ->
-  omap_get (map (fun i => (kf i, vf i)) l) p = None.
-Proof.
-  induction l as [|x l IH]; intros p H; [reflexivity|].
-  cbn [map omap_get]. destruct (pos_eqb (kf x) p) eqn:E.
-  - apply pos_eqb_eq in E. exfalso. apply (H x (or_introl eq_refl) E).
-  - apply IH. intros j Hj. apply H. right. exact Hj.
-Qed.
-
-Lemma in_iota : forall n i, In i (iota n) <-> i < n.
-Proof.
-  intros n i. unfold iota. rewrite in_map_iff. split.
-  - intros [k [Hk Hin]]. apply in_seq in Hin. lia.
-  - intros H. exists (N.to_nat i). split; [apply N2Nat.id|]. apply in_seq. lia.
-Qed.
-
-Lemma group_okb_facts : forall g, group_okb g = true ->
-  fst (g_start g) <= fst (g_end g) /\ snd (g_start g) <= snd (g_end g) /\
-  fst (g_end g) < MAX_ROWS /\ snd (g_end g) < MAX_COLUMNS /\
-  in_box (g_start g) (g_end g) (g_master g) = true.
-Proof. intros g H. unfold group_okb in H. repeat (apply andb_true_iff in H; destruct H as [H ?]).
-  repeat split; try lia; assumption. Qed.
-
-Lemma in_box_facts : forall s e p, in_box s e p = true ->
-  fst s <= fst p <= fst e /\ snd s <= snd p <= snd e.
-Proof. intros s e p H. unfold in_box in H. lia. Qed.
-
-Theorem offset_map_inside : forall g p,
-  group_okb g = true -> in_box (g_start g) (g_end g) p = true ->
-  known_member g p = None -> p <> g_master g ->
-  omap_get (build_offset_map (g_start g, g_end g) (g_master g)) p = Some (member_offset g p).
-Proof.
-  intros g p Hg Hb Hk Hne. destruct (group_okb_facts _ Hg) as [Hr [Hc [_ [_ Hm]]]].
-  apply in_box_facts in Hb. apply in_box_facts in Hm.
-  unfold known_member in Hk. unfold build_offset_map, member_offset.
-  destruct g as [si [mr mc] [sr sc] [er ec] ts]. destruct p as [pr pc]. cbn [g_start g_end g_master fst snd] in *.
-  destruct (sr =? er) eqn:ER; cbn [negb andb] in *.
-  - apply N.eqb_eq in ER. subst er.
-    destruct (sc =? ec) eqn:EC; cbn [negb].
-    + apply N.eqb_eq in EC. subst ec. exfalso. apply Hne. f_equal; lia.
-    + rewrite (@omap_get_map_in (fun i => (sr, sc + i))
-                (fun i => (0%Z, (Z.of_N sc - Z.of_N mc + Z.of_N i)%Z)) _ (pc - sc) (pr, pc)).
-      * f_equal. f_equal; lia.
-      * apply in_iota. lia.
-      * f_equal; lia.
-      * intros j _ Hj. inversion Hj. lia.
-  - destruct (negb (pc =? sc) || negb (mc =? sc)) eqn:K; [discriminate|].
-    apply orb_false_iff in K. destruct K as [K1 K2].
-    apply negb_false_iff in K1. apply negb_false_iff in K2.
-    apply N.eqb_eq in K1. apply N.eqb_eq in K2. subst pc mc.
-    rewrite (@omap_get_map_in (fun i => (sr + i, sc))
-              (fun i => ((Z.of_N sr - Z.of_N mr + Z.of_N i)%Z, 0%Z)) _ (pr - sr) (pr, sc)).
-    + f_equal. f_equal; lia.
-    + apply in_iota. lia.
-    + f_equal; lia.
-    + intros j _ Hj. inversion Hj. lia.
-Qed.
-
-Theorem offset_map_outside : forall g p,
-  group_okb g = true -> in_box (g_start g) (g_end g) p = false ->
-  omap_get (build_offset_map (g_start g, g_end g) (g_master g)) p = None.
-Proof.
-  intros g p Hg Hb. destruct (group_okb_facts _ Hg) as [Hr [Hc _]]. unfold build_offset_map.
-  destruct g as [si [mr mc] [sr sc] [er ec] ts]. destruct p as [pr pc].
-  cbn [g_start g_end g_master fst snd] in *. unfold in_box in Hb. cbn [fst snd] in Hb.
-  destruct (negb (sr =? er)).
-  - apply omap_get_map_notin. intros j Hj E. apply in_iota in Hj. inversion E. lia.
-  - destruct (negb (sc =? ec)); [|reflexivity].
-    apply omap_get_map_notin. intros j Hj E. apply in_iota in Hj. inversion E. lia.
-Qed.
-
-(* ------------------------------------------------------------------ the formulas vector *)
-Definition entry_of (g : group) : group_entry :=
-  (render_all (g_tokens g), build_offset_map (g_start g, g_end g) (g_master g)).
-
-Record fs_rel (fs : list (option group_entry)) (seen : list group) (last : option N) : Prop := {
-  fr_len : length fs = match last with None => O | Some l => S (N.to_nat l) end;
-  fr_seen : forall g, In g seen ->
-              (match last with None => False | Some l => g_si g <= l end) /\
-              nth_error fs (N.to_nat (g_si g)) = Some (Some (entry_of g));
-  fr_free : forall si, find_group seen si = None ->
-              nth_error fs (N.to_nat si) = None \/ nth_error fs (N.to_nat si) = Some None;
-  fr_ok : forall g, In g seen -> group_okb g = true
-}.
-
-Lemma fs_rel_init : fs_rel [] [] None.
-Proof.
-  constructor; [reflexivity|intros g []| |intros g []].
-  intros si _. left. destruct (N.to_nat si); reflexivity.
-Qed.
-
-Lemma nth_error_repeat_none : forall A n i, (i < n)%nat ->
-  nth_error (repeat (@None A) n) i = Some None.
-Proof. intros A n i H. rewrite nth_error_repeat by exact H. reflexivity. Qed.
-
-Lemma fs_rel_push : forall fs seen last g,
-  fs_rel fs seen last -> group_okb g = true ->
-  (match last with Some l => l <? g_si g | None => true end) = true ->
-  fs_rel (push_group fs (g_si g) (entry_of g)) (g :: seen) (Some (g_si g)).
-Proof.
-  intros fs seen last g [Hlen Hseen Hfree Hgok] Hgk Hlt.
-  assert (Hle : (length fs <= N.to_nat (g_si g))%nat).
-  { rewrite Hlen. destruct last as [l|]; [apply N.ltb_lt in Hlt; lia|lia]. }
-  unfold push_group. constructor.
-  - rewrite !app_length, repeat_length. cbn [length]. lia.
-  - intros g' [E|Hin].
-    + subst g'. split; [lia|].
-      rewrite nth_error_app2 by lia. rewrite nth_error_app2 by (rewrite repeat_length; lia).
-      rewrite repeat_length. replace (_ - _ - _)%nat with O by lia. reflexivity.
-    + destruct (Hseen g' Hin) as [Hb Hn]. destruct last as [l|]; [|destruct Hb].
-      apply N.ltb_lt in Hlt. split; [lia|].
-      rewrite nth_error_app1 by (rewrite Hlen; lia). exact Hn.
-  - intros si Hf. unfold find_group in Hf. cbn [find] in Hf.
-    destruct (g_si g =? si) eqn:E; [discriminate|]. apply N.eqb_neq in E.
-    destruct (Nat.lt_ge_cases (N.to_nat si) (length fs)) as [L|L].
-    + rewrite nth_error_app1 by exact L. apply Hfree. exact Hf.
-    + rewrite nth_error_app2 by exact L.
-      destruct (Nat.lt_ge_cases (N.to_nat si) (N.to_nat (g_si g))) as [L2|L2].
-      * right. rewrite nth_error_app1 by (rewrite repeat_length; lia).
-        apply nth_error_repeat_none. lia.
-      * left. apply nth_error_None. rewrite app_length, repeat_length. cbn [length]. lia.
-  - intros g' [E|Hin]; [subst g'; exact Hgk|apply Hgok; exact Hin].
-Qed.
-
-Lemma find_group_some : forall seen si g, find_group seen si = Some g -> In g seen /\ g_si g = si.
-Proof.
-  intros seen si g H. unfold find_group in H. apply find_some in H. destruct H as [H1 H2].
-  apply N.eqb_eq in H2. auto.
-Qed.
-
-(* ------------------------------------------------------------------ one member cell *)
-Lemma member_rewritten : forall g p,
-  member_okb g p = true ->
-  replace_cell_names (render_all (g_tokens g)) (member_offset g p) = Ok (member_formula g p).
-Proof.
-  intros g p H. unfold member_okb in H.
-  repeat (apply andb_true_iff in H; destruct H as [H ?]).
-  unfold member_formula. unfold known_at in *.
-  destruct (member_offset g p) as [dr dc] eqn:EO. cbn [snd] in *.
-  destruct (dc =? 0)%Z eqn:EZ.
-  - apply Z.eqb_eq in EZ. subst dc.
-    destruct (known_C15_v (g_tokens g)) eqn:K; [discriminate|].
-    apply translate_correct_vertical; assumption.
-  - destruct (known_C15 (g_tokens g)) eqn:K; [discriminate|].
-    apply translate_correct; assumption.
-Qed.
-
-(* ------------------------------------------------------------------ MAIN THEOREM 2 *)
-Theorem run_cells_spec : forall cs seen last fs,
-  fs_rel fs seen last -> sheet_okb seen last cs = true ->
-  run_cells fs (map encode_cell cs) = Ok (spec_cells seen cs).
-Proof.
-  induction cs as [|c cs IH]; intros seen last fs Hrel Hok; [reflexivity|].
-  cbn [sheet_okb] in Hok. apply andb_true_iff in Hok. destruct Hok as [Hc Hrest].
-  cbn [map run_cells spec_cells].
-  destruct c as [p|p f|g|p si own]; cbn [encode_cell seen_after fst snd] in *.
-  - cbn [cell_step obind fst snd]. rewrite (IH _ _ _ Hrel Hrest). reflexivity.
-  - cbn [cell_step obind fst snd]. rewrite (IH _ _ _ Hrel Hrest). reflexivity.
-  - apply andb_true_iff in Hc. destruct Hc as [Hg Hlt].
-    destruct (group_okb_facts _ Hg) as [Hr [Hcc [Her [Hec _]]]].
-    cbn [cell_step]. unfold ref_text.
-    rewrite get_dimension_pair by (unfold ROW_TEXT_LIMIT, COL_TEXT_LIMIT, MAX_ROWS, MAX_COLUMNS in *; lia).
-    cbn [obind fst snd].
-    rewrite <- !surjective_pairing.
-    change (render_all (g_tokens g), build_offset_map (g_start g, g_end g) (g_master g)) with (entry_of g).
-    rewrite (IH _ _ _ (@fs_rel_push _ _ _ g Hrel Hg Hlt) Hrest). reflexivity.
-  - cbn [cell_step spec_value].
-    destruct (find_group seen si) as [g|] eqn:F.
-    + destruct (find_group_some _ _ F) as [Hin Hsi]. subst si.
-      destruct (fr_seen Hrel g Hin) as [_ Hn]. rewrite Hn. unfold entry_of.
-      pose proof (fr_ok Hrel g Hin) as Hg.
-      destruct (in_box (g_start g) (g_end g) p) eqn:B.
-      * assert (Hm := Hc). unfold member_okb in Hm.
-        repeat (apply andb_true_iff in Hm; destruct Hm as [Hm ?]).
-        destruct (known_member g p) eqn:KM; [discriminate|].
-        assert (Hne : p <> g_master g).
-        { intros E. apply negb_true_iff in Hm. apply pos_eqb_eq in E. congruence. }
-        rewrite (@offset_map_inside g p Hg B KM Hne).
-        rewrite (@member_rewritten g p Hc). cbn [obind fst snd].
-        rewrite (IH _ _ _ Hrel Hrest). reflexivity.
-      * rewrite (@offset_map_outside g p Hg B). cbn [obind fst snd].
-        rewrite (IH _ _ _ Hrel Hrest). reflexivity.
-    + destruct (fr_free Hrel si F) as [Hn|Hn]; rewrite Hn; cbn [obind fst snd];
-        rewrite (IH _ _ _ Hrel Hrest); reflexivity.
-Qed.
-
-(* every cell of a sheet gets the formula the property demands: members inside the declared
-   ref of their group (1-D, or first column of a 2-D ref) the master translated by their own
-   offset, all other cells their own text; then worksheet_formula drops the empty ones *)
+(* MAIN: every cell of every declared ref, in one or two dimensions, whatever the master
+   position and the order of the shared indices *)
 Theorem group_covers_range : forall cs,
-  sheet_okb [] None cs = true ->
-  run_cells [] (map encode_cell cs) = Ok (spec_cells [] cs) /\
-  sheet_formulas (map encode_cell cs)
-    = Ok (filter (fun pv => negb (fval_is_empty (snd pv))) (spec_cells [] cs)).
+  sheet_okb is_alnum [] cs = true ->
+  run_cells is_alnum [] (map encode_cell cs) = Ok (spec_cells [] cs) /\
+  sheet_formulas is_alnum (map encode_cell cs)
+    = Ok (filter (fun pv => nonempty (snd pv)) (spec_cells [] cs)).
 Proof.
-  intros cs H. pose proof (run_cells_spec cs fs_rel_init H) as R. split; [exact R|].
+  intros cs H. pose proof (run_cells_spec cs [] H) as R. cbn [map] in R. split; [exact R|].
   unfold sheet_formulas. rewrite R. reflexivity.
 Qed.
 
-(* ------------------------------------------------------------------ group-level witnesses *)
-Definition g_tokens_ex : list token := [t_A1; t_plus; TNum [49] None None].    (* A1+1 *)
-Definition g_col : group := mkGroup 0 (1, 1) (1, 1) (4, 1) [TRef true 0 false 0; t_plus; TNum [49] None None]. (* B2:B5, $A1+1 *)
-Definition g_row : group := mkGroup 3 (6, 1) (6, 1) (6, 4) [TRef true 0 true 0; t_star; TRef false 2 false 0]. (* B7:E7, $A$1*C1 *)
-Definition g_blk : group := mkGroup 0 (1, 1) (1, 1) (2, 2) g_tokens_ex.         (* B2:C3 *)
+End Proofs.
+
+(* ------------------------------------------------------------------ examples, witnesses *)
+Lemma ascii_oracle : forall c, c < 128 -> ascii_alnum c = ascii_alnum c.
+Proof. reflexivity. Qed.
+
+(* 'Données Q1'!$A1+B$2*LOG10(C3)&<string: é dq x dq A1>+Table1[[#This Row],[Col A1]]+1.5E-3+1E5
+   +Q1!D4:E5+rate+#N/A+[1]Sheet1!A1+SUM($A:$B)+Jan:Dec!F6 *)
+Definition ex_tokens : list token :=
+  [ TSheet true [68;111;110;110;233;101;115;32;81;49]; TRef true 0 false 0; TSym 43;
+    TRef false 1 true 1; TSym 42; TFunc [76;79;71;49;48]; TRef false 2 false 2; TSym 41; TSym 38;
+    TStr [233;32;34;120;34;32;65;49]; TSym 43;
+    TName [84;97;98;108;101;49];
+    TBrack [91;91;35;84;104;105;115;32;82;111;119;93;44;91;67;111;108;32;65;49;93;93]; TSym 43;
+    TNum [49] (Some [53]) (Some (Some true, [51])); TSym 43; TNum [49] None (Some (None, [53])); TSym 43;
+    TSheet false [81;49]; TRef false 3 false 3; TSym 58; TRef false 4 false 4; TSym 43;
+    TName [114;97;116;101]; TSym 43; TErr 6; TSym 43;
+    TBrack [91;49;93]; TSheet false [83;104;101;101;116;49]; TRef false 0 false 0; TSym 43;
+    TFunc [83;85;77]; TColRange true 0 true 1; TSym 41; TSym 43;
+    TSheetRange [74;97;110] [68;101;99]; TRef false 5 false 5 ].
+
+Example translate_correct_nonvacuous :
+  wf_formula ascii_alnum ex_tokens = true /\ in_range ex_tokens (5, 2)%Z /\
+  known_C15 ex_tokens = None /\
+  render_all (map (translate (5, 2)%Z) ex_tokens) <> render_all ex_tokens /\
+  replace_cell_names ascii_alnum (render_all ex_tokens) (5, 2)%Z
+    = Ok (render_all (map (translate (5, 2)%Z) ex_tokens)).
+Proof. vm_compute. repeat split; discriminate. Qed.
+
+(* the former classes, now translated as specified (model level; the harness confirms the
+   real code): $A1+A$1 along a row, LOG10(A1) down, a string literal with e-acute, a quoted
+   sheet name containing a double quote, Revenue2024!A1*1000000000 *)
+Example former_classes_fixed :
+  replace_cell_names ascii_alnum [36;65;49;43;65;36;49] (0, 1)%Z = Ok [36;65;49;43;66;36;49] /\
+  replace_cell_names ascii_alnum [76;79;71;49;48;40;65;49;41] (1, 0)%Z = Ok [76;79;71;49;48;40;65;50;41] /\
+  replace_cell_names ascii_alnum [34;233;34;38;65;49] (1, 0)%Z = Ok [34;233;34;38;65;50] /\
+  replace_cell_names ascii_alnum [39;97;34;98;39;33;65;49] (1, 0)%Z = Ok [39;97;34;98;39;33;65;50] /\
+  replace_cell_names ascii_alnum
+    [82;101;118;101;110;117;101;50;48;50;52;33;65;49;42;49;48;48;48;48;48;48;48;48;48] (1, 0)%Z
+  = Ok [82;101;118;101;110;117;101;50;48;50;52;33;65;50;42;49;48;48;48;48;48;48;48;48;48].
+Proof. vm_compute. repeat split. Qed.
+
+(* outside in_range: a reference that would leave the sheet stays (A1 up / left, A1048576 down,
+   XFD1 right); the mixed reference $A1 one row up and one column left stays as a whole *)
+Example edge_behaviour :
+  replace_cell_names ascii_alnum [65;49] (-1, 0)%Z = Ok [65;49] /\
+  replace_cell_names ascii_alnum [65;49] (0, -1)%Z = Ok [65;49] /\
+  replace_cell_names ascii_alnum [65;49;48;52;56;53;55;54] (1, 0)%Z = Ok [65;49;48;52;56;53;55;54] /\
+  replace_cell_names ascii_alnum [88;70;68;49] (0, 1)%Z = Ok [88;70;68;49] /\
+  replace_cell_names ascii_alnum [36;65;49] (-1, -1)%Z = Ok [36;65;49] /\
+  replace_cell_names ascii_alnum [65;50] (9223372036854775807, 0)%Z = Panic.
+Proof. vm_compute. repeat split. Qed.
+
+(* remaining known classes *)
+Definition wt_whole_cols : list token := [TFunc [83;85;77]; TColRange false 0 false 0; TSym 41].  (* SUM(A:A) *)
+Definition wt_whole_rows : list token := [TFunc [83;85;77]; TRowRange false 0 false 2; TSym 41].  (* SUM(1:3) *)
+Definition wt_sheet3d : list token := [TSheetRange [81;49] [81;51]; TRef false 0 false 0].        (* Q1:Q3!A1 *)
+
+Theorem refuted_whole_range :
+  exists ts off, wf_formula ascii_alnum ts = true /\ in_range ts off /\
+    known_C15 ts = Some CL_WHOLE /\ known_at off ts = Some CL_WHOLE /\
+    replace_cell_names ascii_alnum (render_all ts) off = Ok (render_all ts) /\
+    render_all ts <> render_all (map (translate off) ts).
+Proof. exists wt_whole_cols, (0, 1)%Z. vm_compute. repeat split; discriminate. Qed.
+
+Theorem refuted_whole_range_rows :
+  exists ts off, wf_formula ascii_alnum ts = true /\ in_range ts off /\
+    known_C15 ts = Some CL_WHOLE /\ known_at off ts = Some CL_WHOLE /\
+    replace_cell_names ascii_alnum (render_all ts) off = Ok (render_all ts) /\
+    render_all ts <> render_all (map (translate off) ts).
+Proof. exists wt_whole_rows, (2, 0)%Z. vm_compute. repeat split; discriminate. Qed.
+
+(* … but not in the other direction (proved in general: translate_correct_at) *)
+Example whole_range_vertical_ok :
+  known_at (3, 0)%Z wt_whole_cols = None /\ known_at (0, 3)%Z wt_whole_rows = None.
+Proof. vm_compute. split; reflexivity. Qed.
+
+Theorem refuted_sheet3d :
+  exists ts off, wf_formula ascii_alnum ts = true /\ in_range ts off /\
+    known_C15 ts = Some CL_SHEET3D /\
+    replace_cell_names ascii_alnum (render_all ts) off = Ok [81;50;58;81;51;33;65;50] /\   (* Q2:Q3!A2 *)
+    render_all (map (translate off) ts) = [81;49;58;81;51;33;65;50].                         (* Q1:Q3!A2 *)
+Proof. exists wt_sheet3d, (1, 0)%Z. vm_compute. repeat split. Qed.
+
+(* a sheet: block B2:D4 declared by C3 (the master in the middle, si 1), then a row B6:E6 (si 0,
+   i.e. indices in decreasing document order); a member before its master, one outside its ref,
+   one of an undeclared index *)
+Definition ex_f1 : list token :=      (* $A21+F$1*LOG10(H22) *)
+  [TRef true 0 false 20; TSym 43; TRef false 5 true 0; TSym 42; TFunc [76;79;71;49;48];
+   TRef false 7 false 21; TSym 41].
+Definition ex_g1 : group := mkGroup 1 (2, 2) (1, 1) (3, 3) ex_f1.
+Definition ex_g0 : group := mkGroup 0 (5, 1) (5, 1) (5, 4) [TRef false 0 false 0; TSym 43; TNum [49] None None].
 Definition ex_sheet : list scell :=
-  [ SPlain (0, 0) [66;50;42;50]; SNone (0, 1);
-    SMaster g_col; SMember (2, 1) 0 []; SMember (3, 1) 0 []; SPlain (3, 2) [49]; SMember (4, 1) 0 [];
-    SMember (5, 5) 0 [75]; SMember (5, 6) 9 [76];
-    SMaster g_row; SMember (6, 2) 3 []; SMember (6, 3) 3 []; SMember (6, 4) 3 [] ].
+  [ SPlain (0, 0) [66;50]; SMember (1, 1) 1 [];
+    SMaster ex_g1; SMember (2, 3) 1 []; SMember (3, 1) 1 []; SMember (3, 3) 1 [];
+    SMaster ex_g0; SMember (5, 2) 0 []; SMember (5, 4) 0 [];
+    SMember (6, 0) 0 [75]; SMember (7, 7) 9 [76]; SNone (8, 8) ].
 
 Example group_covers_range_nonvacuous :
-  sheet_okb [] None ex_sheet = true /\
-  nth_error (spec_cells [] ex_sheet) 6 = Some ((4, 1), VBytes [36;65;52;43;49]) /\  (* B5: $A4+1 *)
-  nth_error (spec_cells [] ex_sheet) 7 = Some ((5, 5), VText [75]) /\               (* outside the ref *)
-  nth_error (spec_cells [] ex_sheet) 12 = Some ((6, 4), VBytes [36;65;36;49;42;70;49]).  (* E7: $A$1*F1 *)
-Proof. repeat split; vm_compute; reflexivity. Qed.
+  sheet_okb ascii_alnum [] ex_sheet = true /\
+  nth_error (spec_cells [] ex_sheet) 1 = Some ((1, 1), []) /\
+  nth_error (spec_cells [] ex_sheet) 3
+    = Some ((2, 3), render_all [TRef true 0 false 20; TSym 43; TRef false 6 true 0; TSym 42;
+                                TFunc [76;79;71;49;48]; TRef false 8 false 21; TSym 41]) /\
+  nth_error (spec_cells [] ex_sheet) 4
+    = Some ((3, 1), render_all [TRef true 0 false 21; TSym 43; TRef false 4 true 0; TSym 42;
+                                TFunc [76;79;71;49;48]; TRef false 6 false 22; TSym 41]) /\
+  nth_error (spec_cells [] ex_sheet) 8
+    = Some ((5, 4), render_all [TRef false 3 false 0; TSym 43; TNum [49] None None]) /\
+  nth_error (spec_cells [] ex_sheet) 9 = Some ((6, 0), [75]).
+Proof. vm_compute. repeat split. Qed.
 
-(* class 6: in a 2-D group only the first column is served; C2, C3 come out empty *)
-Theorem refuted_block :
-  exists g p, group_okb g = true /\ in_box (g_start g) (g_end g) p = true /\
-    known_member g p = Some CL_BLOCK /\
-    run_cells [] (map encode_cell [SMaster g; SMember p (g_si g) []])
-      = Ok [(g_master g, VText (render_all (g_tokens g))); (p, VText [])] /\
-    member_formula g p <> [].
+(* the whole-range class at group level: SUM(A:A) shared along a row *)
+Theorem refuted_group_whole_range :
+  exists cs, sheet_okb ascii_alnum [] cs = false /\
+    run_cells ascii_alnum [] (map encode_cell cs) <> Ok (spec_cells [] cs).
 Proof.
-  exists g_blk, (1, 2). repeat split; try (vm_compute; reflexivity). vm_compute. discriminate.
-Qed.
-
-(* class 7: shared indices that do not increase in document order are stored at the wrong
-   index: the members of the second group get nothing (or another group's formula) *)
-Theorem refuted_si_order :
-  exists cs, run_cells [] (map encode_cell cs) <> Ok (spec_cells [] cs) /\
-    sheet_okb [] None cs = false.
-Proof.
-  exists [SMaster (mkGroup 1 (1, 1) (1, 1) (2, 1) g_tokens_ex); SMember (2, 1) 1 [];
-          SMaster (mkGroup 0 (1, 3) (1, 3) (2, 3) g_tokens_ex); SMember (2, 3) 0 []].
-  split; [vm_compute; discriminate|vm_compute; reflexivity].
+  exists [SMaster (mkGroup 0 (1, 1) (1, 1) (1, 3) wt_whole_cols); SMember (1, 2) 0 []].
+  vm_compute. split; [reflexivity|discriminate].
 Qed.
